@@ -286,12 +286,176 @@ def Frustum.window_ortho {α : Type} [Add α] [Sub α] [Mul α] [Div α] [OfNat 
   (n, f, (l + ((t41 * ((1 : α) + wl)) / (2 : α))), (l + ((t41 * ((1 : α) + wr)) / (2 : α))), (b + ((t42 * ((1 : α) + wt)) / (2 : α))), (b + ((t42 * ((1 : α) + wb)) / (2 : α))), true)
 
 /-- extracted from the C++ template at T = Sym; 1 path(s) -/
+def Frustum.assign_persp {α : Type} (n : α) (f : α) (l : α) (r : α) (t : α) (b : α) : (α × α × α × α × α × α × Bool) :=
+  (n, f, l, r, t, b, false)
+
+/-- extracted from the C++ template at T = Sym; 1 path(s) -/
+def Frustum.copyCtor_persp {α : Type} (n : α) (f : α) (l : α) (r : α) (t : α) (b : α) : (α × α × α × α × α × α × Bool) :=
+  (n, f, l, r, t, b, false)
+
+/-- extracted from the C++ template at T = Sym; 1 path(s) -/
+def Frustum.hitherYon_persp {α : Type} (n : α) (f : α) (l : α) (r : α) (t : α) (b : α) : (α × α) :=
+  (n, f)
+
+/-- extracted from the C++ template at T = Sym; 1 path(s) -/
+def Frustum.assign_ortho {α : Type} (n : α) (f : α) (l : α) (r : α) (t : α) (b : α) : (α × α × α × α × α × α × Bool) :=
+  (n, f, l, r, t, b, true)
+
+/-- extracted from the C++ template at T = Sym; 1 path(s) -/
+def Frustum.copyCtor_ortho {α : Type} (n : α) (f : α) (l : α) (r : α) (t : α) (b : α) : (α × α × α × α × α × α × Bool) :=
+  (n, f, l, r, t, b, true)
+
+/-- extracted from the C++ template at T = Sym; 1 path(s) -/
+def Frustum.hitherYon_ortho {α : Type} (n : α) (f : α) (l : α) (r : α) (t : α) (b : α) : (α × α) :=
+  (n, f)
+
+/-- extracted from the C++ template at T = Sym; 1 path(s) -/
+def Frustum.defaultCtor {α : Type} [Div α] [Neg α] [OfNat α 1] [OfNat α 1000] [OfNat α 3602879701896397] [OfNat α 36028797018963968] : (α × α × α × α × α × α × Bool) :=
+  (((3602879701896397 : α) / (36028797018963968 : α)), (1000 : α), (-(1 : α)), (1 : α), (1 : α), (-(1 : α)), false)
+
+/-- extracted from the C++ template at T = Sym; 7 path(s) -/
+def Frustum.eq_persp_persp {α : Type} [DecidableEq α] (n : α) (f : α) (l : α) (r : α) (t : α) (b : α) (n2 : α) (f2 : α) (l2 : α) (r2 : α) (t2 : α) (b2 : α) : (Bool × Bool) :=
+  if n = n2 then
+    if f = f2 then
+      if l = l2 then
+        if r = r2 then
+          if t = t2 then
+            if b = b2 then
+              (true, false)
+            else
+              (false, true)
+          else
+            (false, true)
+        else
+          (false, true)
+      else
+        (false, true)
+    else
+      (false, true)
+  else
+    (false, true)
+
+/-- extracted from the C++ template at T = Sym; 7 path(s) -/
+def Frustum.eq_ortho_ortho {α : Type} [DecidableEq α] (n : α) (f : α) (l : α) (r : α) (t : α) (b : α) (n2 : α) (f2 : α) (l2 : α) (r2 : α) (t2 : α) (b2 : α) : (Bool × Bool) :=
+  if n = n2 then
+    if f = f2 then
+      if l = l2 then
+        if r = r2 then
+          if t = t2 then
+            if b = b2 then
+              (true, false)
+            else
+              (false, true)
+          else
+            (false, true)
+        else
+          (false, true)
+      else
+        (false, true)
+    else
+      (false, true)
+  else
+    (false, true)
+
+/-- extracted from the C++ template at T = Sym; 7 path(s) -/
+def Frustum.eq_persp_ortho {α : Type} [DecidableEq α] (n : α) (f : α) (l : α) (r : α) (t : α) (b : α) (n2 : α) (f2 : α) (l2 : α) (r2 : α) (t2 : α) (b2 : α) : (Bool × Bool) :=
+  if n = n2 then
+    if f = f2 then
+      if l = l2 then
+        if r = r2 then
+          if t = t2 then
+            if b = b2 then
+              (false, true)
+            else
+              (false, true)
+          else
+            (false, true)
+        else
+          (false, true)
+      else
+        (false, true)
+    else
+      (false, true)
+  else
+    (false, true)
+
+/-- extracted from the C++ template at T = Sym; 7 path(s) -/
+def Frustum.eq_ortho_persp {α : Type} [DecidableEq α] (n : α) (f : α) (l : α) (r : α) (t : α) (b : α) (n2 : α) (f2 : α) (l2 : α) (r2 : α) (t2 : α) (b2 : α) : (Bool × Bool) :=
+  if n = n2 then
+    if f = f2 then
+      if l = l2 then
+        if r = r2 then
+          if t = t2 then
+            if b = b2 then
+              (false, true)
+            else
+              (false, true)
+          else
+            (false, true)
+        else
+          (false, true)
+      else
+        (false, true)
+    else
+      (false, true)
+  else
+    (false, true)
+
+/-- extracted from the C++ template at T = Sym; 1 path(s) -/
+def Frustum.ZToDepth_persp_5_0_10 {α : Type} [Sub α] [Mul α] [Div α] [OfNat α 0] [OfNat α 1] [OfNat α 2] [OfNat α 5] [OfNat α 10] (n : α) (f : α) (l : α) (r : α) (t : α) (b : α) : α :=
+  ((((2 : α) * f) * n) / ((((((((5 : α) - (0 : α)) / (10 : α)) * (2 : α)) - (1 : α)) * (f - n)) - f) - n))
+
+/-- extracted from the C++ template at T = Sym; 1 path(s) -/
+def Frustum.ZToDepth_persp_11_0_10 {α : Type} [Sub α] [Mul α] [Div α] [OfNat α 0] [OfNat α 1] [OfNat α 2] [OfNat α 10] [OfNat α 11] (n : α) (f : α) (l : α) (r : α) (t : α) (b : α) : α :=
+  ((((2 : α) * f) * n) / ((((((((11 : α) - (0 : α)) / (10 : α)) * (2 : α)) - (1 : α)) * (f - n)) - f) - n))
+
+/-- extracted from the C++ template at T = Sym; 1 path(s) -/
+def Frustum.ZToDepth_persp_12_0_10 {α : Type} [Sub α] [Mul α] [Div α] [OfNat α 0] [OfNat α 1] [OfNat α 2] [OfNat α 10] (n : α) (f : α) (l : α) (r : α) (t : α) (b : α) : α :=
+  ((((2 : α) * f) * n) / ((((((((2 : α) - (0 : α)) / (10 : α)) * (2 : α)) - (1 : α)) * (f - n)) - f) - n))
+
+/-- extracted from the C++ template at T = Sym; 1 path(s) -/
+def Frustum.ZToDepth_persp_m3_m10_10 {α : Type} [Sub α] [Mul α] [Div α] [Neg α] [OfNat α 1] [OfNat α 2] [OfNat α 3] [OfNat α 10] [OfNat α 20] (n : α) (f : α) (l : α) (r : α) (t : α) (b : α) : α :=
+  ((((2 : α) * f) * n) / ((((((((-(3 : α)) - (-(10 : α))) / (20 : α)) * (2 : α)) - (1 : α)) * (f - n)) - f) - n))
+
+/-- extracted from the C++ template at T = Sym; 1 path(s) -/
+def Frustum.ZToDepth_persp_w32 {α : Type} [Sub α] [Mul α] [Div α] [OfNat α 0] [OfNat α 1] [OfNat α 2] [OfNat α 4294967295] (n : α) (f : α) (l : α) (r : α) (t : α) (b : α) : α :=
+  ((((2 : α) * f) * n) / ((((((((4294967295 : α) - (0 : α)) / (4294967295 : α)) * (2 : α)) - (1 : α)) * (f - n)) - f) - n))
+
+/-- extracted from the C++ template at T = Sym; 1 path(s) -/
+def Frustum.ZToDepth_ortho_5_0_10 {α : Type} [Add α] [Sub α] [Mul α] [Div α] [Neg α] [OfNat α 0] [OfNat α 1] [OfNat α 2] [OfNat α 5] [OfNat α 10] (n : α) (f : α) (l : α) (r : α) (t : α) (b : α) : α :=
+  ((-(((((((5 : α) - (0 : α)) / (10 : α)) * (2 : α)) - (1 : α)) * (f - n)) + (f + n))) / (2 : α))
+
+/-- extracted from the C++ template at T = Sym; 1 path(s) -/
+def Frustum.ZToDepth_ortho_11_0_10 {α : Type} [Add α] [Sub α] [Mul α] [Div α] [Neg α] [OfNat α 0] [OfNat α 1] [OfNat α 2] [OfNat α 10] [OfNat α 11] (n : α) (f : α) (l : α) (r : α) (t : α) (b : α) : α :=
+  ((-(((((((11 : α) - (0 : α)) / (10 : α)) * (2 : α)) - (1 : α)) * (f - n)) + (f + n))) / (2 : α))
+
+/-- extracted from the C++ template at T = Sym; 1 path(s) -/
+def Frustum.ZToDepth_ortho_12_0_10 {α : Type} [Add α] [Sub α] [Mul α] [Div α] [Neg α] [OfNat α 0] [OfNat α 1] [OfNat α 2] [OfNat α 10] (n : α) (f : α) (l : α) (r : α) (t : α) (b : α) : α :=
+  ((-(((((((2 : α) - (0 : α)) / (10 : α)) * (2 : α)) - (1 : α)) * (f - n)) + (f + n))) / (2 : α))
+
+/-- extracted from the C++ template at T = Sym; 1 path(s) -/
+def Frustum.ZToDepth_ortho_m3_m10_10 {α : Type} [Add α] [Sub α] [Mul α] [Div α] [Neg α] [OfNat α 1] [OfNat α 2] [OfNat α 3] [OfNat α 10] [OfNat α 20] (n : α) (f : α) (l : α) (r : α) (t : α) (b : α) : α :=
+  ((-(((((((-(3 : α)) - (-(10 : α))) / (20 : α)) * (2 : α)) - (1 : α)) * (f - n)) + (f + n))) / (2 : α))
+
+/-- extracted from the C++ template at T = Sym; 1 path(s) -/
+def Frustum.ZToDepth_ortho_w32 {α : Type} [Add α] [Sub α] [Mul α] [Div α] [Neg α] [OfNat α 0] [OfNat α 1] [OfNat α 2] [OfNat α 4294967295] (n : α) (f : α) (l : α) (r : α) (t : α) (b : α) : α :=
+  ((-(((((((4294967295 : α) - (0 : α)) / (4294967295 : α)) * (2 : α)) - (1 : α)) * (f - n)) + (f + n))) / (2 : α))
+
+/-- extracted from the C++ template at T = Sym; 1 path(s) -/
+def Frustum.DepthToZ_persp_3_10 {α : Type} [Add α] [Sub α] [Mul α] [Div α] [OfNat α 1] [OfNat α 2] [OfNat α 7] (n : α) (f : α) (l : α) (r : α) (t : α) (b : α) (depth : α) : (α × Int × Int × Int) :=
+  (((((1 : α) / (2 : α)) * ((((((((2 : α) * f) * n) / depth) + f) + n) / (f - n)) + (1 : α))) * (7 : α)), (3 : Int), (1 : Int), (0 : Int))
+
+/-- extracted from the C++ template at T = Sym; 1 path(s) -/
+def Frustum.DepthToZ_ortho_3_10 {α : Type} [Add α] [Sub α] [Mul α] [Div α] [Neg α] [OfNat α 1] [OfNat α 2] [OfNat α 7] (n : α) (f : α) (l : α) (r : α) (t : α) (b : α) (depth : α) : (α × Int × Int × Int) :=
+  (((((1 : α) / (2 : α)) * (((-((((2 : α) * depth) + f) + n)) / (f - n)) + (1 : α))) * (7 : α)), (3 : Int), (1 : Int), (0 : Int))
+
+/-- extracted from the C++ template at T = Sym; 1 path(s) -/
 def Frustum.projectionMatrix_persp {α : Type} [Add α] [Sub α] [Mul α] [Div α] [Neg α] [OfNat α 0] [OfNat α 1] [OfNat α 2] (n : α) (f : α) (l : α) (r : α) (t : α) (b : α) : (M44 α) :=
   let t41 := (r - l)
   let t42 := (t - b)
-  let t192 := (f - n)
-  let t201 := ((2 : α) * n)
-  ⟨(t201 / t41), (0 : α), (0 : α), (0 : α), (0 : α), (t201 / t42), (0 : α), (0 : α), ((r + l) / t41), ((t + b) / t42), ((-(f + n)) / t192), (-(1 : α)), (0 : α), (0 : α), ((((-(2 : α)) * f) * n) / t192), (0 : α)⟩
+  let t204 := (f - n)
+  let t289 := ((2 : α) * n)
+  ⟨(t289 / t41), (0 : α), (0 : α), (0 : α), (0 : α), (t289 / t42), (0 : α), (0 : α), ((r + l) / t41), ((t + b) / t42), ((-(f + n)) / t204), (-(1 : α)), (0 : α), (0 : α), ((((-(2 : α)) * f) * n) / t204), (0 : α)⟩
 
 /-- extracted from the C++ template at T = Sym; 1 path(s) -/
 def Frustum.screenToLocal_persp {α : Type} [Add α] [Sub α] [Mul α] [Div α] [OfNat α 1] [OfNat α 2] (n : α) (f : α) (l : α) (r : α) (t : α) (b : α) (s : V2 α) : (V2 α) :=
@@ -304,23 +468,23 @@ def Frustum.localToScreen_persp {α : Type} [Add α] [Sub α] [Mul α] [Div α] 
 /-- extracted from the C++ template at T = Sym; 2 path(s) -/
 def Frustum.projectScreenToRay_persp {α : Type} [Add α] [Sub α] [Mul α] [Div α] [Neg α] [LT α] [LE α] [DecidableLT α] [DecidableLE α] [DecidableEq α] [OfNat α 0] [OfNat α 1] [OfNat α 2] (tmin : α) (tmax : α) (sqrt : α → α) (n : α) (f : α) (l : α) (r : α) (t : α) (b : α) (s : V2 α) : (Line3 α) :=
   let t45 := ((-n) - (0 : α))
-  let t226 := ((b + (((t - b) * ((1 : α) + s.y)) / (2 : α))) - (0 : α))
-  let t227 := ((l + (((r - l) * ((1 : α) + s.x)) / (2 : α))) - (0 : α))
-  let t228 := (V3.length tmin tmax sqrt ⟨t227, t226, t45⟩)
-  if t228 = (0 : α) then
-    ⟨⟨(0 : α), (0 : α), (0 : α)⟩, ⟨t227, t226, t45⟩⟩
+  let t314 := ((b + (((t - b) * ((1 : α) + s.y)) / (2 : α))) - (0 : α))
+  let t315 := ((l + (((r - l) * ((1 : α) + s.x)) / (2 : α))) - (0 : α))
+  let t316 := (V3.length tmin tmax sqrt ⟨t315, t314, t45⟩)
+  if t316 = (0 : α) then
+    ⟨⟨(0 : α), (0 : α), (0 : α)⟩, ⟨t315, t314, t45⟩⟩
   else
-    ⟨⟨(0 : α), (0 : α), (0 : α)⟩, ⟨(t227 / t228), (t226 / t228), (t45 / t228)⟩⟩
+    ⟨⟨(0 : α), (0 : α), (0 : α)⟩, ⟨(t315 / t316), (t314 / t316), (t45 / t316)⟩⟩
 
 /-- extracted from the C++ template at T = Sym; 2 path(s) -/
 def Frustum.projectPointToScreen_persp {α : Type} [Add α] [Sub α] [Mul α] [Div α] [Neg α] [DecidableEq α] [OfNat α 0] [OfNat α 2] (n : α) (f : α) (l : α) (r : α) (t : α) (b : α) (p : V3 α) : (V2 α) :=
-  let t219 := (l - r)
-  let t223 := (b - t)
-  let t233 := (-p.z)
+  let t307 := (l - r)
+  let t311 := (b - t)
+  let t321 := (-p.z)
   if p.z = (0 : α) then
-    ⟨(((l - ((2 : α) * p.x)) + r) / t219), (((b - ((2 : α) * p.y)) + t) / t223)⟩
+    ⟨(((l - ((2 : α) * p.x)) + r) / t307), (((b - ((2 : α) * p.y)) + t) / t311)⟩
   else
-    ⟨(((l - ((2 : α) * ((p.x * n) / t233))) + r) / t219), (((b - ((2 : α) * ((p.y * n) / t233))) + t) / t223)⟩
+    ⟨(((l - ((2 : α) * ((p.x * n) / t321))) + r) / t307), (((b - ((2 : α) * ((p.y * n) / t321))) + t) / t311)⟩
 
 /-- extracted from the C++ template at T = Sym; 1 path(s) -/
 def Frustum.normalizedZToDepth_persp {α : Type} [Sub α] [Mul α] [Div α] [OfNat α 1] [OfNat α 2] (n : α) (f : α) (l : α) (r : α) (t : α) (b : α) (zval : α) : α :=
@@ -338,8 +502,8 @@ def Frustum.worldRadius_persp {α : Type} [Mul α] [Div α] [Neg α] (n : α) (f
 def Frustum.projectionMatrix_ortho {α : Type} [Add α] [Sub α] [Div α] [Neg α] [OfNat α 0] [OfNat α 1] [OfNat α 2] (n : α) (f : α) (l : α) (r : α) (t : α) (b : α) : (M44 α) :=
   let t41 := (r - l)
   let t42 := (t - b)
-  let t192 := (f - n)
-  ⟨((2 : α) / t41), (0 : α), (0 : α), (0 : α), (0 : α), ((2 : α) / t42), (0 : α), (0 : α), (0 : α), (0 : α), ((-(2 : α)) / t192), (0 : α), ((-(r + l)) / t41), ((-(t + b)) / t42), ((-(f + n)) / t192), (1 : α)⟩
+  let t204 := (f - n)
+  ⟨((2 : α) / t41), (0 : α), (0 : α), (0 : α), (0 : α), ((2 : α) / t42), (0 : α), (0 : α), (0 : α), (0 : α), ((-(2 : α)) / t204), (0 : α), ((-(r + l)) / t41), ((-(t + b)) / t42), ((-(f + n)) / t204), (1 : α)⟩
 
 /-- extracted from the C++ template at T = Sym; 1 path(s) -/
 def Frustum.screenToLocal_ortho {α : Type} [Add α] [Sub α] [Mul α] [Div α] [OfNat α 1] [OfNat α 2] (n : α) (f : α) (l : α) (r : α) (t : α) (b : α) (s : V2 α) : (V2 α) :=
@@ -351,16 +515,16 @@ def Frustum.localToScreen_ortho {α : Type} [Add α] [Sub α] [Mul α] [Div α] 
 
 /-- extracted from the C++ template at T = Sym; 2 path(s) -/
 def Frustum.projectScreenToRay_ortho {α : Type} [Add α] [Sub α] [Mul α] [Div α] [Neg α] [LT α] [LE α] [DecidableLT α] [DecidableLE α] [DecidableEq α] [OfNat α 0] [OfNat α 1] [OfNat α 2] (tmin : α) (tmax : α) (sqrt : α → α) (n : α) (f : α) (l : α) (r : α) (t : α) (b : α) (s : V2 α) : (Line3 α) :=
-  let t209 := (b + (((t - b) * ((1 : α) + s.y)) / (2 : α)))
-  let t213 := (l + (((r - l) * ((1 : α) + s.x)) / (2 : α)))
-  let t267 := ((-(1 : α)) - (0 : α))
-  let t268 := (t209 - t209)
-  let t269 := (t213 - t213)
-  let t270 := (V3.length tmin tmax sqrt ⟨t269, t268, t267⟩)
-  if t270 = (0 : α) then
-    ⟨⟨t213, t209, (0 : α)⟩, ⟨t269, t268, t267⟩⟩
+  let t297 := (b + (((t - b) * ((1 : α) + s.y)) / (2 : α)))
+  let t301 := (l + (((r - l) * ((1 : α) + s.x)) / (2 : α)))
+  let t353 := ((-(1 : α)) - (0 : α))
+  let t354 := (t297 - t297)
+  let t355 := (t301 - t301)
+  let t356 := (V3.length tmin tmax sqrt ⟨t355, t354, t353⟩)
+  if t356 = (0 : α) then
+    ⟨⟨t301, t297, (0 : α)⟩, ⟨t355, t354, t353⟩⟩
   else
-    ⟨⟨t213, t209, (0 : α)⟩, ⟨(t269 / t270), (t268 / t270), (t267 / t270)⟩⟩
+    ⟨⟨t301, t297, (0 : α)⟩, ⟨(t355 / t356), (t354 / t356), (t353 / t356)⟩⟩
 
 /-- extracted from the C++ template at T = Sym; 1 path(s) -/
 def Frustum.projectPointToScreen_ortho {α : Type} [Add α] [Sub α] [Mul α] [Div α] [OfNat α 2] (n : α) (f : α) (l : α) (r : α) (t : α) (b : α) (p : V3 α) : (V2 α) :=
@@ -378,6 +542,11 @@ def Frustum.screenRadius_ortho {α : Type} [Mul α] [Div α] [Neg α] (n : α) (
 def Frustum.worldRadius_ortho {α : Type} [Mul α] [Div α] [Neg α] (n : α) (f : α) (l : α) (r : α) (t : α) (b : α) (p : V3 α) (radius : α) : α :=
   (radius * (p.z / (-n)))
 
+/-- extracted from the C++ template at T = Sym; 1 path(s) -/
+def Frustum.V3mulM44 {α : Type} [Add α] [Mul α] [Div α] (v : V3 α) (m : M44 α) : (V3 α) :=
+  let t405 := ((((v.x * m.x03) + (v.y * m.x13)) + (v.z * m.x23)) + m.x33)
+  ⟨(((((v.x * m.x00) + (v.y * m.x10)) + (v.z * m.x20)) + m.x30) / t405), (((((v.x * m.x01) + (v.y * m.x11)) + (v.z * m.x21)) + m.x31) / t405), (((((v.x * m.x02) + (v.y * m.x12)) + (v.z * m.x22)) + m.x32) / t405)⟩
+
 /-- extracted from the C++ template at T = Sym; 64 path(s) -/
 def Frustum.planes_persp {α : Type} [Add α] [Sub α] [Mul α] [Div α] [Neg α] [LT α] [LE α] [DecidableLT α] [DecidableLE α] [DecidableEq α] [OfNat α 0] [OfNat α 1] [OfNat α 2] (tmin : α) (tmax : α) (sqrt : α → α) (n : α) (f : α) (l : α) (r : α) (t : α) (b : α) : ((Plane3 α) × (Plane3 α) × (Plane3 α) × (Plane3 α) × (Plane3 α) × (Plane3 α)) :=
   let t44 := (-n)
@@ -389,247 +558,247 @@ def Frustum.planes_persp {α : Type} [Add α] [Sub α] [Mul α] [Div α] [Neg α
   let t53 := (V3.length tmin tmax sqrt ⟨(0 : α), (0 : α), (-(1 : α))⟩)
   let t83 := ((0 : α) / t53)
   let t84 := ((-(1 : α)) / t53)
-  let t277 := (t49 * t47)
-  let t278 := (t50 * t49)
-  let t279 := (t278 - t277)
-  let t280 := (t50 * t45)
-  let t281 := (t45 * t47)
-  let t282 := (t281 - t280)
-  let t283 := (t45 * t49)
-  let t284 := (t49 * t45)
-  let t285 := (t284 - t283)
-  let t286 := (V3.length tmin tmax sqrt ⟨t285, t282, t279⟩)
-  let t291 := (((t285 * (0 : α)) + (t282 * (0 : α))) + (t279 * (0 : α)))
-  let t292 := (t46 * t50)
-  let t293 := (t278 - t292)
-  let t294 := (t45 * t50)
-  let t295 := (t294 - t280)
-  let t296 := (t46 * t45)
-  let t297 := (t296 - t283)
-  let t298 := (V3.length tmin tmax sqrt ⟨t297, t295, t293⟩)
-  let t303 := (((t297 * (0 : α)) + (t295 * (0 : α))) + (t293 * (0 : α)))
-  let t304 := (t47 * t46)
-  let t305 := (t304 - t292)
-  let t306 := (t47 * t45)
-  let t307 := (t294 - t306)
-  let t308 := (t45 * t46)
-  let t309 := (t296 - t308)
-  let t310 := (V3.length tmin tmax sqrt ⟨t309, t307, t305⟩)
-  let t315 := (((t309 * (0 : α)) + (t307 * (0 : α))) + (t305 * (0 : α)))
-  let t316 := (t304 - t277)
-  let t317 := (t281 - t306)
-  let t318 := (t284 - t308)
-  let t319 := (V3.length tmin tmax sqrt ⟨t318, t317, t316⟩)
-  let t324 := (((t318 * (0 : α)) + (t317 * (0 : α))) + (t316 * (0 : α)))
-  let t325 := (V3.length tmin tmax sqrt ⟨(0 : α), (0 : α), (1 : α)⟩)
-  let t326 := ((0 : α) / t325)
-  let t327 := ((1 : α) / t325)
-  let t328 := (t318 / t319)
-  let t329 := (t317 / t319)
-  let t330 := (t316 / t319)
-  let t335 := (((t328 * (0 : α)) + (t329 * (0 : α))) + (t330 * (0 : α)))
-  let t336 := (t309 / t310)
-  let t337 := (t307 / t310)
-  let t338 := (t305 / t310)
-  let t343 := (((t336 * (0 : α)) + (t337 * (0 : α))) + (t338 * (0 : α)))
-  let t344 := (t297 / t298)
-  let t345 := (t295 / t298)
-  let t346 := (t293 / t298)
-  let t351 := (((t344 * (0 : α)) + (t345 * (0 : α))) + (t346 * (0 : α)))
-  let t352 := (t285 / t286)
-  let t353 := (t282 / t286)
-  let t354 := (t279 / t286)
-  let t359 := (((t352 * (0 : α)) + (t353 * (0 : α))) + (t354 * (0 : α)))
-  if t286 = (0 : α) then
-    if t298 = (0 : α) then
-      if t310 = (0 : α) then
-        if t319 = (0 : α) then
-          if t325 = (0 : α) then
+  let t409 := (t49 * t47)
+  let t410 := (t50 * t49)
+  let t411 := (t410 - t409)
+  let t412 := (t50 * t45)
+  let t413 := (t45 * t47)
+  let t414 := (t413 - t412)
+  let t415 := (t45 * t49)
+  let t416 := (t49 * t45)
+  let t417 := (t416 - t415)
+  let t418 := (V3.length tmin tmax sqrt ⟨t417, t414, t411⟩)
+  let t423 := (((t417 * (0 : α)) + (t414 * (0 : α))) + (t411 * (0 : α)))
+  let t424 := (t46 * t50)
+  let t425 := (t410 - t424)
+  let t426 := (t45 * t50)
+  let t427 := (t426 - t412)
+  let t428 := (t46 * t45)
+  let t429 := (t428 - t415)
+  let t430 := (V3.length tmin tmax sqrt ⟨t429, t427, t425⟩)
+  let t435 := (((t429 * (0 : α)) + (t427 * (0 : α))) + (t425 * (0 : α)))
+  let t436 := (t47 * t46)
+  let t437 := (t436 - t424)
+  let t438 := (t47 * t45)
+  let t439 := (t426 - t438)
+  let t440 := (t45 * t46)
+  let t441 := (t428 - t440)
+  let t442 := (V3.length tmin tmax sqrt ⟨t441, t439, t437⟩)
+  let t447 := (((t441 * (0 : α)) + (t439 * (0 : α))) + (t437 * (0 : α)))
+  let t448 := (t436 - t409)
+  let t449 := (t413 - t438)
+  let t450 := (t416 - t440)
+  let t451 := (V3.length tmin tmax sqrt ⟨t450, t449, t448⟩)
+  let t456 := (((t450 * (0 : α)) + (t449 * (0 : α))) + (t448 * (0 : α)))
+  let t457 := (V3.length tmin tmax sqrt ⟨(0 : α), (0 : α), (1 : α)⟩)
+  let t458 := ((0 : α) / t457)
+  let t459 := ((1 : α) / t457)
+  let t460 := (t450 / t451)
+  let t461 := (t449 / t451)
+  let t462 := (t448 / t451)
+  let t467 := (((t460 * (0 : α)) + (t461 * (0 : α))) + (t462 * (0 : α)))
+  let t468 := (t441 / t442)
+  let t469 := (t439 / t442)
+  let t470 := (t437 / t442)
+  let t475 := (((t468 * (0 : α)) + (t469 * (0 : α))) + (t470 * (0 : α)))
+  let t476 := (t429 / t430)
+  let t477 := (t427 / t430)
+  let t478 := (t425 / t430)
+  let t483 := (((t476 * (0 : α)) + (t477 * (0 : α))) + (t478 * (0 : α)))
+  let t484 := (t417 / t418)
+  let t485 := (t414 / t418)
+  let t486 := (t411 / t418)
+  let t491 := (((t484 * (0 : α)) + (t485 * (0 : α))) + (t486 * (0 : α)))
+  if t418 = (0 : α) then
+    if t430 = (0 : α) then
+      if t442 = (0 : α) then
+        if t451 = (0 : α) then
+          if t457 = (0 : α) then
             if t53 = (0 : α) then
-              (⟨⟨t285, t282, t279⟩, t291⟩, ⟨⟨t297, t295, t293⟩, t303⟩, ⟨⟨t309, t307, t305⟩, t315⟩, ⟨⟨t318, t317, t316⟩, t324⟩, ⟨⟨(0 : α), (0 : α), (1 : α)⟩, t44⟩, ⟨⟨(0 : α), (0 : α), (-(1 : α))⟩, f⟩)
+              (⟨⟨t417, t414, t411⟩, t423⟩, ⟨⟨t429, t427, t425⟩, t435⟩, ⟨⟨t441, t439, t437⟩, t447⟩, ⟨⟨t450, t449, t448⟩, t456⟩, ⟨⟨(0 : α), (0 : α), (1 : α)⟩, t44⟩, ⟨⟨(0 : α), (0 : α), (-(1 : α))⟩, f⟩)
             else
-              (⟨⟨t285, t282, t279⟩, t291⟩, ⟨⟨t297, t295, t293⟩, t303⟩, ⟨⟨t309, t307, t305⟩, t315⟩, ⟨⟨t318, t317, t316⟩, t324⟩, ⟨⟨(0 : α), (0 : α), (1 : α)⟩, t44⟩, ⟨⟨t83, t83, t84⟩, f⟩)
+              (⟨⟨t417, t414, t411⟩, t423⟩, ⟨⟨t429, t427, t425⟩, t435⟩, ⟨⟨t441, t439, t437⟩, t447⟩, ⟨⟨t450, t449, t448⟩, t456⟩, ⟨⟨(0 : α), (0 : α), (1 : α)⟩, t44⟩, ⟨⟨t83, t83, t84⟩, f⟩)
           else
             if t53 = (0 : α) then
-              (⟨⟨t285, t282, t279⟩, t291⟩, ⟨⟨t297, t295, t293⟩, t303⟩, ⟨⟨t309, t307, t305⟩, t315⟩, ⟨⟨t318, t317, t316⟩, t324⟩, ⟨⟨t326, t326, t327⟩, t44⟩, ⟨⟨(0 : α), (0 : α), (-(1 : α))⟩, f⟩)
+              (⟨⟨t417, t414, t411⟩, t423⟩, ⟨⟨t429, t427, t425⟩, t435⟩, ⟨⟨t441, t439, t437⟩, t447⟩, ⟨⟨t450, t449, t448⟩, t456⟩, ⟨⟨t458, t458, t459⟩, t44⟩, ⟨⟨(0 : α), (0 : α), (-(1 : α))⟩, f⟩)
             else
-              (⟨⟨t285, t282, t279⟩, t291⟩, ⟨⟨t297, t295, t293⟩, t303⟩, ⟨⟨t309, t307, t305⟩, t315⟩, ⟨⟨t318, t317, t316⟩, t324⟩, ⟨⟨t326, t326, t327⟩, t44⟩, ⟨⟨t83, t83, t84⟩, f⟩)
+              (⟨⟨t417, t414, t411⟩, t423⟩, ⟨⟨t429, t427, t425⟩, t435⟩, ⟨⟨t441, t439, t437⟩, t447⟩, ⟨⟨t450, t449, t448⟩, t456⟩, ⟨⟨t458, t458, t459⟩, t44⟩, ⟨⟨t83, t83, t84⟩, f⟩)
         else
-          if t325 = (0 : α) then
+          if t457 = (0 : α) then
             if t53 = (0 : α) then
-              (⟨⟨t285, t282, t279⟩, t291⟩, ⟨⟨t297, t295, t293⟩, t303⟩, ⟨⟨t309, t307, t305⟩, t315⟩, ⟨⟨t328, t329, t330⟩, t335⟩, ⟨⟨(0 : α), (0 : α), (1 : α)⟩, t44⟩, ⟨⟨(0 : α), (0 : α), (-(1 : α))⟩, f⟩)
+              (⟨⟨t417, t414, t411⟩, t423⟩, ⟨⟨t429, t427, t425⟩, t435⟩, ⟨⟨t441, t439, t437⟩, t447⟩, ⟨⟨t460, t461, t462⟩, t467⟩, ⟨⟨(0 : α), (0 : α), (1 : α)⟩, t44⟩, ⟨⟨(0 : α), (0 : α), (-(1 : α))⟩, f⟩)
             else
-              (⟨⟨t285, t282, t279⟩, t291⟩, ⟨⟨t297, t295, t293⟩, t303⟩, ⟨⟨t309, t307, t305⟩, t315⟩, ⟨⟨t328, t329, t330⟩, t335⟩, ⟨⟨(0 : α), (0 : α), (1 : α)⟩, t44⟩, ⟨⟨t83, t83, t84⟩, f⟩)
+              (⟨⟨t417, t414, t411⟩, t423⟩, ⟨⟨t429, t427, t425⟩, t435⟩, ⟨⟨t441, t439, t437⟩, t447⟩, ⟨⟨t460, t461, t462⟩, t467⟩, ⟨⟨(0 : α), (0 : α), (1 : α)⟩, t44⟩, ⟨⟨t83, t83, t84⟩, f⟩)
           else
             if t53 = (0 : α) then
-              (⟨⟨t285, t282, t279⟩, t291⟩, ⟨⟨t297, t295, t293⟩, t303⟩, ⟨⟨t309, t307, t305⟩, t315⟩, ⟨⟨t328, t329, t330⟩, t335⟩, ⟨⟨t326, t326, t327⟩, t44⟩, ⟨⟨(0 : α), (0 : α), (-(1 : α))⟩, f⟩)
+              (⟨⟨t417, t414, t411⟩, t423⟩, ⟨⟨t429, t427, t425⟩, t435⟩, ⟨⟨t441, t439, t437⟩, t447⟩, ⟨⟨t460, t461, t462⟩, t467⟩, ⟨⟨t458, t458, t459⟩, t44⟩, ⟨⟨(0 : α), (0 : α), (-(1 : α))⟩, f⟩)
             else
-              (⟨⟨t285, t282, t279⟩, t291⟩, ⟨⟨t297, t295, t293⟩, t303⟩, ⟨⟨t309, t307, t305⟩, t315⟩, ⟨⟨t328, t329, t330⟩, t335⟩, ⟨⟨t326, t326, t327⟩, t44⟩, ⟨⟨t83, t83, t84⟩, f⟩)
+              (⟨⟨t417, t414, t411⟩, t423⟩, ⟨⟨t429, t427, t425⟩, t435⟩, ⟨⟨t441, t439, t437⟩, t447⟩, ⟨⟨t460, t461, t462⟩, t467⟩, ⟨⟨t458, t458, t459⟩, t44⟩, ⟨⟨t83, t83, t84⟩, f⟩)
       else
-        if t319 = (0 : α) then
-          if t325 = (0 : α) then
+        if t451 = (0 : α) then
+          if t457 = (0 : α) then
             if t53 = (0 : α) then
-              (⟨⟨t285, t282, t279⟩, t291⟩, ⟨⟨t297, t295, t293⟩, t303⟩, ⟨⟨t336, t337, t338⟩, t343⟩, ⟨⟨t318, t317, t316⟩, t324⟩, ⟨⟨(0 : α), (0 : α), (1 : α)⟩, t44⟩, ⟨⟨(0 : α), (0 : α), (-(1 : α))⟩, f⟩)
+              (⟨⟨t417, t414, t411⟩, t423⟩, ⟨⟨t429, t427, t425⟩, t435⟩, ⟨⟨t468, t469, t470⟩, t475⟩, ⟨⟨t450, t449, t448⟩, t456⟩, ⟨⟨(0 : α), (0 : α), (1 : α)⟩, t44⟩, ⟨⟨(0 : α), (0 : α), (-(1 : α))⟩, f⟩)
             else
-              (⟨⟨t285, t282, t279⟩, t291⟩, ⟨⟨t297, t295, t293⟩, t303⟩, ⟨⟨t336, t337, t338⟩, t343⟩, ⟨⟨t318, t317, t316⟩, t324⟩, ⟨⟨(0 : α), (0 : α), (1 : α)⟩, t44⟩, ⟨⟨t83, t83, t84⟩, f⟩)
+              (⟨⟨t417, t414, t411⟩, t423⟩, ⟨⟨t429, t427, t425⟩, t435⟩, ⟨⟨t468, t469, t470⟩, t475⟩, ⟨⟨t450, t449, t448⟩, t456⟩, ⟨⟨(0 : α), (0 : α), (1 : α)⟩, t44⟩, ⟨⟨t83, t83, t84⟩, f⟩)
           else
             if t53 = (0 : α) then
-              (⟨⟨t285, t282, t279⟩, t291⟩, ⟨⟨t297, t295, t293⟩, t303⟩, ⟨⟨t336, t337, t338⟩, t343⟩, ⟨⟨t318, t317, t316⟩, t324⟩, ⟨⟨t326, t326, t327⟩, t44⟩, ⟨⟨(0 : α), (0 : α), (-(1 : α))⟩, f⟩)
+              (⟨⟨t417, t414, t411⟩, t423⟩, ⟨⟨t429, t427, t425⟩, t435⟩, ⟨⟨t468, t469, t470⟩, t475⟩, ⟨⟨t450, t449, t448⟩, t456⟩, ⟨⟨t458, t458, t459⟩, t44⟩, ⟨⟨(0 : α), (0 : α), (-(1 : α))⟩, f⟩)
             else
-              (⟨⟨t285, t282, t279⟩, t291⟩, ⟨⟨t297, t295, t293⟩, t303⟩, ⟨⟨t336, t337, t338⟩, t343⟩, ⟨⟨t318, t317, t316⟩, t324⟩, ⟨⟨t326, t326, t327⟩, t44⟩, ⟨⟨t83, t83, t84⟩, f⟩)
+              (⟨⟨t417, t414, t411⟩, t423⟩, ⟨⟨t429, t427, t425⟩, t435⟩, ⟨⟨t468, t469, t470⟩, t475⟩, ⟨⟨t450, t449, t448⟩, t456⟩, ⟨⟨t458, t458, t459⟩, t44⟩, ⟨⟨t83, t83, t84⟩, f⟩)
         else
-          if t325 = (0 : α) then
+          if t457 = (0 : α) then
             if t53 = (0 : α) then
-              (⟨⟨t285, t282, t279⟩, t291⟩, ⟨⟨t297, t295, t293⟩, t303⟩, ⟨⟨t336, t337, t338⟩, t343⟩, ⟨⟨t328, t329, t330⟩, t335⟩, ⟨⟨(0 : α), (0 : α), (1 : α)⟩, t44⟩, ⟨⟨(0 : α), (0 : α), (-(1 : α))⟩, f⟩)
+              (⟨⟨t417, t414, t411⟩, t423⟩, ⟨⟨t429, t427, t425⟩, t435⟩, ⟨⟨t468, t469, t470⟩, t475⟩, ⟨⟨t460, t461, t462⟩, t467⟩, ⟨⟨(0 : α), (0 : α), (1 : α)⟩, t44⟩, ⟨⟨(0 : α), (0 : α), (-(1 : α))⟩, f⟩)
             else
-              (⟨⟨t285, t282, t279⟩, t291⟩, ⟨⟨t297, t295, t293⟩, t303⟩, ⟨⟨t336, t337, t338⟩, t343⟩, ⟨⟨t328, t329, t330⟩, t335⟩, ⟨⟨(0 : α), (0 : α), (1 : α)⟩, t44⟩, ⟨⟨t83, t83, t84⟩, f⟩)
+              (⟨⟨t417, t414, t411⟩, t423⟩, ⟨⟨t429, t427, t425⟩, t435⟩, ⟨⟨t468, t469, t470⟩, t475⟩, ⟨⟨t460, t461, t462⟩, t467⟩, ⟨⟨(0 : α), (0 : α), (1 : α)⟩, t44⟩, ⟨⟨t83, t83, t84⟩, f⟩)
           else
             if t53 = (0 : α) then
-              (⟨⟨t285, t282, t279⟩, t291⟩, ⟨⟨t297, t295, t293⟩, t303⟩, ⟨⟨t336, t337, t338⟩, t343⟩, ⟨⟨t328, t329, t330⟩, t335⟩, ⟨⟨t326, t326, t327⟩, t44⟩, ⟨⟨(0 : α), (0 : α), (-(1 : α))⟩, f⟩)
+              (⟨⟨t417, t414, t411⟩, t423⟩, ⟨⟨t429, t427, t425⟩, t435⟩, ⟨⟨t468, t469, t470⟩, t475⟩, ⟨⟨t460, t461, t462⟩, t467⟩, ⟨⟨t458, t458, t459⟩, t44⟩, ⟨⟨(0 : α), (0 : α), (-(1 : α))⟩, f⟩)
             else
-              (⟨⟨t285, t282, t279⟩, t291⟩, ⟨⟨t297, t295, t293⟩, t303⟩, ⟨⟨t336, t337, t338⟩, t343⟩, ⟨⟨t328, t329, t330⟩, t335⟩, ⟨⟨t326, t326, t327⟩, t44⟩, ⟨⟨t83, t83, t84⟩, f⟩)
+              (⟨⟨t417, t414, t411⟩, t423⟩, ⟨⟨t429, t427, t425⟩, t435⟩, ⟨⟨t468, t469, t470⟩, t475⟩, ⟨⟨t460, t461, t462⟩, t467⟩, ⟨⟨t458, t458, t459⟩, t44⟩, ⟨⟨t83, t83, t84⟩, f⟩)
     else
-      if t310 = (0 : α) then
-        if t319 = (0 : α) then
-          if t325 = (0 : α) then
+      if t442 = (0 : α) then
+        if t451 = (0 : α) then
+          if t457 = (0 : α) then
             if t53 = (0 : α) then
-              (⟨⟨t285, t282, t279⟩, t291⟩, ⟨⟨t344, t345, t346⟩, t351⟩, ⟨⟨t309, t307, t305⟩, t315⟩, ⟨⟨t318, t317, t316⟩, t324⟩, ⟨⟨(0 : α), (0 : α), (1 : α)⟩, t44⟩, ⟨⟨(0 : α), (0 : α), (-(1 : α))⟩, f⟩)
+              (⟨⟨t417, t414, t411⟩, t423⟩, ⟨⟨t476, t477, t478⟩, t483⟩, ⟨⟨t441, t439, t437⟩, t447⟩, ⟨⟨t450, t449, t448⟩, t456⟩, ⟨⟨(0 : α), (0 : α), (1 : α)⟩, t44⟩, ⟨⟨(0 : α), (0 : α), (-(1 : α))⟩, f⟩)
             else
-              (⟨⟨t285, t282, t279⟩, t291⟩, ⟨⟨t344, t345, t346⟩, t351⟩, ⟨⟨t309, t307, t305⟩, t315⟩, ⟨⟨t318, t317, t316⟩, t324⟩, ⟨⟨(0 : α), (0 : α), (1 : α)⟩, t44⟩, ⟨⟨t83, t83, t84⟩, f⟩)
+              (⟨⟨t417, t414, t411⟩, t423⟩, ⟨⟨t476, t477, t478⟩, t483⟩, ⟨⟨t441, t439, t437⟩, t447⟩, ⟨⟨t450, t449, t448⟩, t456⟩, ⟨⟨(0 : α), (0 : α), (1 : α)⟩, t44⟩, ⟨⟨t83, t83, t84⟩, f⟩)
           else
             if t53 = (0 : α) then
-              (⟨⟨t285, t282, t279⟩, t291⟩, ⟨⟨t344, t345, t346⟩, t351⟩, ⟨⟨t309, t307, t305⟩, t315⟩, ⟨⟨t318, t317, t316⟩, t324⟩, ⟨⟨t326, t326, t327⟩, t44⟩, ⟨⟨(0 : α), (0 : α), (-(1 : α))⟩, f⟩)
+              (⟨⟨t417, t414, t411⟩, t423⟩, ⟨⟨t476, t477, t478⟩, t483⟩, ⟨⟨t441, t439, t437⟩, t447⟩, ⟨⟨t450, t449, t448⟩, t456⟩, ⟨⟨t458, t458, t459⟩, t44⟩, ⟨⟨(0 : α), (0 : α), (-(1 : α))⟩, f⟩)
             else
-              (⟨⟨t285, t282, t279⟩, t291⟩, ⟨⟨t344, t345, t346⟩, t351⟩, ⟨⟨t309, t307, t305⟩, t315⟩, ⟨⟨t318, t317, t316⟩, t324⟩, ⟨⟨t326, t326, t327⟩, t44⟩, ⟨⟨t83, t83, t84⟩, f⟩)
+              (⟨⟨t417, t414, t411⟩, t423⟩, ⟨⟨t476, t477, t478⟩, t483⟩, ⟨⟨t441, t439, t437⟩, t447⟩, ⟨⟨t450, t449, t448⟩, t456⟩, ⟨⟨t458, t458, t459⟩, t44⟩, ⟨⟨t83, t83, t84⟩, f⟩)
         else
-          if t325 = (0 : α) then
+          if t457 = (0 : α) then
             if t53 = (0 : α) then
-              (⟨⟨t285, t282, t279⟩, t291⟩, ⟨⟨t344, t345, t346⟩, t351⟩, ⟨⟨t309, t307, t305⟩, t315⟩, ⟨⟨t328, t329, t330⟩, t335⟩, ⟨⟨(0 : α), (0 : α), (1 : α)⟩, t44⟩, ⟨⟨(0 : α), (0 : α), (-(1 : α))⟩, f⟩)
+              (⟨⟨t417, t414, t411⟩, t423⟩, ⟨⟨t476, t477, t478⟩, t483⟩, ⟨⟨t441, t439, t437⟩, t447⟩, ⟨⟨t460, t461, t462⟩, t467⟩, ⟨⟨(0 : α), (0 : α), (1 : α)⟩, t44⟩, ⟨⟨(0 : α), (0 : α), (-(1 : α))⟩, f⟩)
             else
-              (⟨⟨t285, t282, t279⟩, t291⟩, ⟨⟨t344, t345, t346⟩, t351⟩, ⟨⟨t309, t307, t305⟩, t315⟩, ⟨⟨t328, t329, t330⟩, t335⟩, ⟨⟨(0 : α), (0 : α), (1 : α)⟩, t44⟩, ⟨⟨t83, t83, t84⟩, f⟩)
+              (⟨⟨t417, t414, t411⟩, t423⟩, ⟨⟨t476, t477, t478⟩, t483⟩, ⟨⟨t441, t439, t437⟩, t447⟩, ⟨⟨t460, t461, t462⟩, t467⟩, ⟨⟨(0 : α), (0 : α), (1 : α)⟩, t44⟩, ⟨⟨t83, t83, t84⟩, f⟩)
           else
             if t53 = (0 : α) then
-              (⟨⟨t285, t282, t279⟩, t291⟩, ⟨⟨t344, t345, t346⟩, t351⟩, ⟨⟨t309, t307, t305⟩, t315⟩, ⟨⟨t328, t329, t330⟩, t335⟩, ⟨⟨t326, t326, t327⟩, t44⟩, ⟨⟨(0 : α), (0 : α), (-(1 : α))⟩, f⟩)
+              (⟨⟨t417, t414, t411⟩, t423⟩, ⟨⟨t476, t477, t478⟩, t483⟩, ⟨⟨t441, t439, t437⟩, t447⟩, ⟨⟨t460, t461, t462⟩, t467⟩, ⟨⟨t458, t458, t459⟩, t44⟩, ⟨⟨(0 : α), (0 : α), (-(1 : α))⟩, f⟩)
             else
-              (⟨⟨t285, t282, t279⟩, t291⟩, ⟨⟨t344, t345, t346⟩, t351⟩, ⟨⟨t309, t307, t305⟩, t315⟩, ⟨⟨t328, t329, t330⟩, t335⟩, ⟨⟨t326, t326, t327⟩, t44⟩, ⟨⟨t83, t83, t84⟩, f⟩)
+              (⟨⟨t417, t414, t411⟩, t423⟩, ⟨⟨t476, t477, t478⟩, t483⟩, ⟨⟨t441, t439, t437⟩, t447⟩, ⟨⟨t460, t461, t462⟩, t467⟩, ⟨⟨t458, t458, t459⟩, t44⟩, ⟨⟨t83, t83, t84⟩, f⟩)
       else
-        if t319 = (0 : α) then
-          if t325 = (0 : α) then
+        if t451 = (0 : α) then
+          if t457 = (0 : α) then
             if t53 = (0 : α) then
-              (⟨⟨t285, t282, t279⟩, t291⟩, ⟨⟨t344, t345, t346⟩, t351⟩, ⟨⟨t336, t337, t338⟩, t343⟩, ⟨⟨t318, t317, t316⟩, t324⟩, ⟨⟨(0 : α), (0 : α), (1 : α)⟩, t44⟩, ⟨⟨(0 : α), (0 : α), (-(1 : α))⟩, f⟩)
+              (⟨⟨t417, t414, t411⟩, t423⟩, ⟨⟨t476, t477, t478⟩, t483⟩, ⟨⟨t468, t469, t470⟩, t475⟩, ⟨⟨t450, t449, t448⟩, t456⟩, ⟨⟨(0 : α), (0 : α), (1 : α)⟩, t44⟩, ⟨⟨(0 : α), (0 : α), (-(1 : α))⟩, f⟩)
             else
-              (⟨⟨t285, t282, t279⟩, t291⟩, ⟨⟨t344, t345, t346⟩, t351⟩, ⟨⟨t336, t337, t338⟩, t343⟩, ⟨⟨t318, t317, t316⟩, t324⟩, ⟨⟨(0 : α), (0 : α), (1 : α)⟩, t44⟩, ⟨⟨t83, t83, t84⟩, f⟩)
+              (⟨⟨t417, t414, t411⟩, t423⟩, ⟨⟨t476, t477, t478⟩, t483⟩, ⟨⟨t468, t469, t470⟩, t475⟩, ⟨⟨t450, t449, t448⟩, t456⟩, ⟨⟨(0 : α), (0 : α), (1 : α)⟩, t44⟩, ⟨⟨t83, t83, t84⟩, f⟩)
           else
             if t53 = (0 : α) then
-              (⟨⟨t285, t282, t279⟩, t291⟩, ⟨⟨t344, t345, t346⟩, t351⟩, ⟨⟨t336, t337, t338⟩, t343⟩, ⟨⟨t318, t317, t316⟩, t324⟩, ⟨⟨t326, t326, t327⟩, t44⟩, ⟨⟨(0 : α), (0 : α), (-(1 : α))⟩, f⟩)
+              (⟨⟨t417, t414, t411⟩, t423⟩, ⟨⟨t476, t477, t478⟩, t483⟩, ⟨⟨t468, t469, t470⟩, t475⟩, ⟨⟨t450, t449, t448⟩, t456⟩, ⟨⟨t458, t458, t459⟩, t44⟩, ⟨⟨(0 : α), (0 : α), (-(1 : α))⟩, f⟩)
             else
-              (⟨⟨t285, t282, t279⟩, t291⟩, ⟨⟨t344, t345, t346⟩, t351⟩, ⟨⟨t336, t337, t338⟩, t343⟩, ⟨⟨t318, t317, t316⟩, t324⟩, ⟨⟨t326, t326, t327⟩, t44⟩, ⟨⟨t83, t83, t84⟩, f⟩)
+              (⟨⟨t417, t414, t411⟩, t423⟩, ⟨⟨t476, t477, t478⟩, t483⟩, ⟨⟨t468, t469, t470⟩, t475⟩, ⟨⟨t450, t449, t448⟩, t456⟩, ⟨⟨t458, t458, t459⟩, t44⟩, ⟨⟨t83, t83, t84⟩, f⟩)
         else
-          if t325 = (0 : α) then
+          if t457 = (0 : α) then
             if t53 = (0 : α) then
-              (⟨⟨t285, t282, t279⟩, t291⟩, ⟨⟨t344, t345, t346⟩, t351⟩, ⟨⟨t336, t337, t338⟩, t343⟩, ⟨⟨t328, t329, t330⟩, t335⟩, ⟨⟨(0 : α), (0 : α), (1 : α)⟩, t44⟩, ⟨⟨(0 : α), (0 : α), (-(1 : α))⟩, f⟩)
+              (⟨⟨t417, t414, t411⟩, t423⟩, ⟨⟨t476, t477, t478⟩, t483⟩, ⟨⟨t468, t469, t470⟩, t475⟩, ⟨⟨t460, t461, t462⟩, t467⟩, ⟨⟨(0 : α), (0 : α), (1 : α)⟩, t44⟩, ⟨⟨(0 : α), (0 : α), (-(1 : α))⟩, f⟩)
             else
-              (⟨⟨t285, t282, t279⟩, t291⟩, ⟨⟨t344, t345, t346⟩, t351⟩, ⟨⟨t336, t337, t338⟩, t343⟩, ⟨⟨t328, t329, t330⟩, t335⟩, ⟨⟨(0 : α), (0 : α), (1 : α)⟩, t44⟩, ⟨⟨t83, t83, t84⟩, f⟩)
+              (⟨⟨t417, t414, t411⟩, t423⟩, ⟨⟨t476, t477, t478⟩, t483⟩, ⟨⟨t468, t469, t470⟩, t475⟩, ⟨⟨t460, t461, t462⟩, t467⟩, ⟨⟨(0 : α), (0 : α), (1 : α)⟩, t44⟩, ⟨⟨t83, t83, t84⟩, f⟩)
           else
             if t53 = (0 : α) then
-              (⟨⟨t285, t282, t279⟩, t291⟩, ⟨⟨t344, t345, t346⟩, t351⟩, ⟨⟨t336, t337, t338⟩, t343⟩, ⟨⟨t328, t329, t330⟩, t335⟩, ⟨⟨t326, t326, t327⟩, t44⟩, ⟨⟨(0 : α), (0 : α), (-(1 : α))⟩, f⟩)
+              (⟨⟨t417, t414, t411⟩, t423⟩, ⟨⟨t476, t477, t478⟩, t483⟩, ⟨⟨t468, t469, t470⟩, t475⟩, ⟨⟨t460, t461, t462⟩, t467⟩, ⟨⟨t458, t458, t459⟩, t44⟩, ⟨⟨(0 : α), (0 : α), (-(1 : α))⟩, f⟩)
             else
-              (⟨⟨t285, t282, t279⟩, t291⟩, ⟨⟨t344, t345, t346⟩, t351⟩, ⟨⟨t336, t337, t338⟩, t343⟩, ⟨⟨t328, t329, t330⟩, t335⟩, ⟨⟨t326, t326, t327⟩, t44⟩, ⟨⟨t83, t83, t84⟩, f⟩)
+              (⟨⟨t417, t414, t411⟩, t423⟩, ⟨⟨t476, t477, t478⟩, t483⟩, ⟨⟨t468, t469, t470⟩, t475⟩, ⟨⟨t460, t461, t462⟩, t467⟩, ⟨⟨t458, t458, t459⟩, t44⟩, ⟨⟨t83, t83, t84⟩, f⟩)
   else
-    if t298 = (0 : α) then
-      if t310 = (0 : α) then
-        if t319 = (0 : α) then
-          if t325 = (0 : α) then
+    if t430 = (0 : α) then
+      if t442 = (0 : α) then
+        if t451 = (0 : α) then
+          if t457 = (0 : α) then
             if t53 = (0 : α) then
-              (⟨⟨t352, t353, t354⟩, t359⟩, ⟨⟨t297, t295, t293⟩, t303⟩, ⟨⟨t309, t307, t305⟩, t315⟩, ⟨⟨t318, t317, t316⟩, t324⟩, ⟨⟨(0 : α), (0 : α), (1 : α)⟩, t44⟩, ⟨⟨(0 : α), (0 : α), (-(1 : α))⟩, f⟩)
+              (⟨⟨t484, t485, t486⟩, t491⟩, ⟨⟨t429, t427, t425⟩, t435⟩, ⟨⟨t441, t439, t437⟩, t447⟩, ⟨⟨t450, t449, t448⟩, t456⟩, ⟨⟨(0 : α), (0 : α), (1 : α)⟩, t44⟩, ⟨⟨(0 : α), (0 : α), (-(1 : α))⟩, f⟩)
             else
-              (⟨⟨t352, t353, t354⟩, t359⟩, ⟨⟨t297, t295, t293⟩, t303⟩, ⟨⟨t309, t307, t305⟩, t315⟩, ⟨⟨t318, t317, t316⟩, t324⟩, ⟨⟨(0 : α), (0 : α), (1 : α)⟩, t44⟩, ⟨⟨t83, t83, t84⟩, f⟩)
+              (⟨⟨t484, t485, t486⟩, t491⟩, ⟨⟨t429, t427, t425⟩, t435⟩, ⟨⟨t441, t439, t437⟩, t447⟩, ⟨⟨t450, t449, t448⟩, t456⟩, ⟨⟨(0 : α), (0 : α), (1 : α)⟩, t44⟩, ⟨⟨t83, t83, t84⟩, f⟩)
           else
             if t53 = (0 : α) then
-              (⟨⟨t352, t353, t354⟩, t359⟩, ⟨⟨t297, t295, t293⟩, t303⟩, ⟨⟨t309, t307, t305⟩, t315⟩, ⟨⟨t318, t317, t316⟩, t324⟩, ⟨⟨t326, t326, t327⟩, t44⟩, ⟨⟨(0 : α), (0 : α), (-(1 : α))⟩, f⟩)
+              (⟨⟨t484, t485, t486⟩, t491⟩, ⟨⟨t429, t427, t425⟩, t435⟩, ⟨⟨t441, t439, t437⟩, t447⟩, ⟨⟨t450, t449, t448⟩, t456⟩, ⟨⟨t458, t458, t459⟩, t44⟩, ⟨⟨(0 : α), (0 : α), (-(1 : α))⟩, f⟩)
             else
-              (⟨⟨t352, t353, t354⟩, t359⟩, ⟨⟨t297, t295, t293⟩, t303⟩, ⟨⟨t309, t307, t305⟩, t315⟩, ⟨⟨t318, t317, t316⟩, t324⟩, ⟨⟨t326, t326, t327⟩, t44⟩, ⟨⟨t83, t83, t84⟩, f⟩)
+              (⟨⟨t484, t485, t486⟩, t491⟩, ⟨⟨t429, t427, t425⟩, t435⟩, ⟨⟨t441, t439, t437⟩, t447⟩, ⟨⟨t450, t449, t448⟩, t456⟩, ⟨⟨t458, t458, t459⟩, t44⟩, ⟨⟨t83, t83, t84⟩, f⟩)
         else
-          if t325 = (0 : α) then
+          if t457 = (0 : α) then
             if t53 = (0 : α) then
-              (⟨⟨t352, t353, t354⟩, t359⟩, ⟨⟨t297, t295, t293⟩, t303⟩, ⟨⟨t309, t307, t305⟩, t315⟩, ⟨⟨t328, t329, t330⟩, t335⟩, ⟨⟨(0 : α), (0 : α), (1 : α)⟩, t44⟩, ⟨⟨(0 : α), (0 : α), (-(1 : α))⟩, f⟩)
+              (⟨⟨t484, t485, t486⟩, t491⟩, ⟨⟨t429, t427, t425⟩, t435⟩, ⟨⟨t441, t439, t437⟩, t447⟩, ⟨⟨t460, t461, t462⟩, t467⟩, ⟨⟨(0 : α), (0 : α), (1 : α)⟩, t44⟩, ⟨⟨(0 : α), (0 : α), (-(1 : α))⟩, f⟩)
             else
-              (⟨⟨t352, t353, t354⟩, t359⟩, ⟨⟨t297, t295, t293⟩, t303⟩, ⟨⟨t309, t307, t305⟩, t315⟩, ⟨⟨t328, t329, t330⟩, t335⟩, ⟨⟨(0 : α), (0 : α), (1 : α)⟩, t44⟩, ⟨⟨t83, t83, t84⟩, f⟩)
+              (⟨⟨t484, t485, t486⟩, t491⟩, ⟨⟨t429, t427, t425⟩, t435⟩, ⟨⟨t441, t439, t437⟩, t447⟩, ⟨⟨t460, t461, t462⟩, t467⟩, ⟨⟨(0 : α), (0 : α), (1 : α)⟩, t44⟩, ⟨⟨t83, t83, t84⟩, f⟩)
           else
             if t53 = (0 : α) then
-              (⟨⟨t352, t353, t354⟩, t359⟩, ⟨⟨t297, t295, t293⟩, t303⟩, ⟨⟨t309, t307, t305⟩, t315⟩, ⟨⟨t328, t329, t330⟩, t335⟩, ⟨⟨t326, t326, t327⟩, t44⟩, ⟨⟨(0 : α), (0 : α), (-(1 : α))⟩, f⟩)
+              (⟨⟨t484, t485, t486⟩, t491⟩, ⟨⟨t429, t427, t425⟩, t435⟩, ⟨⟨t441, t439, t437⟩, t447⟩, ⟨⟨t460, t461, t462⟩, t467⟩, ⟨⟨t458, t458, t459⟩, t44⟩, ⟨⟨(0 : α), (0 : α), (-(1 : α))⟩, f⟩)
             else
-              (⟨⟨t352, t353, t354⟩, t359⟩, ⟨⟨t297, t295, t293⟩, t303⟩, ⟨⟨t309, t307, t305⟩, t315⟩, ⟨⟨t328, t329, t330⟩, t335⟩, ⟨⟨t326, t326, t327⟩, t44⟩, ⟨⟨t83, t83, t84⟩, f⟩)
+              (⟨⟨t484, t485, t486⟩, t491⟩, ⟨⟨t429, t427, t425⟩, t435⟩, ⟨⟨t441, t439, t437⟩, t447⟩, ⟨⟨t460, t461, t462⟩, t467⟩, ⟨⟨t458, t458, t459⟩, t44⟩, ⟨⟨t83, t83, t84⟩, f⟩)
       else
-        if t319 = (0 : α) then
-          if t325 = (0 : α) then
+        if t451 = (0 : α) then
+          if t457 = (0 : α) then
             if t53 = (0 : α) then
-              (⟨⟨t352, t353, t354⟩, t359⟩, ⟨⟨t297, t295, t293⟩, t303⟩, ⟨⟨t336, t337, t338⟩, t343⟩, ⟨⟨t318, t317, t316⟩, t324⟩, ⟨⟨(0 : α), (0 : α), (1 : α)⟩, t44⟩, ⟨⟨(0 : α), (0 : α), (-(1 : α))⟩, f⟩)
+              (⟨⟨t484, t485, t486⟩, t491⟩, ⟨⟨t429, t427, t425⟩, t435⟩, ⟨⟨t468, t469, t470⟩, t475⟩, ⟨⟨t450, t449, t448⟩, t456⟩, ⟨⟨(0 : α), (0 : α), (1 : α)⟩, t44⟩, ⟨⟨(0 : α), (0 : α), (-(1 : α))⟩, f⟩)
             else
-              (⟨⟨t352, t353, t354⟩, t359⟩, ⟨⟨t297, t295, t293⟩, t303⟩, ⟨⟨t336, t337, t338⟩, t343⟩, ⟨⟨t318, t317, t316⟩, t324⟩, ⟨⟨(0 : α), (0 : α), (1 : α)⟩, t44⟩, ⟨⟨t83, t83, t84⟩, f⟩)
+              (⟨⟨t484, t485, t486⟩, t491⟩, ⟨⟨t429, t427, t425⟩, t435⟩, ⟨⟨t468, t469, t470⟩, t475⟩, ⟨⟨t450, t449, t448⟩, t456⟩, ⟨⟨(0 : α), (0 : α), (1 : α)⟩, t44⟩, ⟨⟨t83, t83, t84⟩, f⟩)
           else
             if t53 = (0 : α) then
-              (⟨⟨t352, t353, t354⟩, t359⟩, ⟨⟨t297, t295, t293⟩, t303⟩, ⟨⟨t336, t337, t338⟩, t343⟩, ⟨⟨t318, t317, t316⟩, t324⟩, ⟨⟨t326, t326, t327⟩, t44⟩, ⟨⟨(0 : α), (0 : α), (-(1 : α))⟩, f⟩)
+              (⟨⟨t484, t485, t486⟩, t491⟩, ⟨⟨t429, t427, t425⟩, t435⟩, ⟨⟨t468, t469, t470⟩, t475⟩, ⟨⟨t450, t449, t448⟩, t456⟩, ⟨⟨t458, t458, t459⟩, t44⟩, ⟨⟨(0 : α), (0 : α), (-(1 : α))⟩, f⟩)
             else
-              (⟨⟨t352, t353, t354⟩, t359⟩, ⟨⟨t297, t295, t293⟩, t303⟩, ⟨⟨t336, t337, t338⟩, t343⟩, ⟨⟨t318, t317, t316⟩, t324⟩, ⟨⟨t326, t326, t327⟩, t44⟩, ⟨⟨t83, t83, t84⟩, f⟩)
+              (⟨⟨t484, t485, t486⟩, t491⟩, ⟨⟨t429, t427, t425⟩, t435⟩, ⟨⟨t468, t469, t470⟩, t475⟩, ⟨⟨t450, t449, t448⟩, t456⟩, ⟨⟨t458, t458, t459⟩, t44⟩, ⟨⟨t83, t83, t84⟩, f⟩)
         else
-          if t325 = (0 : α) then
+          if t457 = (0 : α) then
             if t53 = (0 : α) then
-              (⟨⟨t352, t353, t354⟩, t359⟩, ⟨⟨t297, t295, t293⟩, t303⟩, ⟨⟨t336, t337, t338⟩, t343⟩, ⟨⟨t328, t329, t330⟩, t335⟩, ⟨⟨(0 : α), (0 : α), (1 : α)⟩, t44⟩, ⟨⟨(0 : α), (0 : α), (-(1 : α))⟩, f⟩)
+              (⟨⟨t484, t485, t486⟩, t491⟩, ⟨⟨t429, t427, t425⟩, t435⟩, ⟨⟨t468, t469, t470⟩, t475⟩, ⟨⟨t460, t461, t462⟩, t467⟩, ⟨⟨(0 : α), (0 : α), (1 : α)⟩, t44⟩, ⟨⟨(0 : α), (0 : α), (-(1 : α))⟩, f⟩)
             else
-              (⟨⟨t352, t353, t354⟩, t359⟩, ⟨⟨t297, t295, t293⟩, t303⟩, ⟨⟨t336, t337, t338⟩, t343⟩, ⟨⟨t328, t329, t330⟩, t335⟩, ⟨⟨(0 : α), (0 : α), (1 : α)⟩, t44⟩, ⟨⟨t83, t83, t84⟩, f⟩)
+              (⟨⟨t484, t485, t486⟩, t491⟩, ⟨⟨t429, t427, t425⟩, t435⟩, ⟨⟨t468, t469, t470⟩, t475⟩, ⟨⟨t460, t461, t462⟩, t467⟩, ⟨⟨(0 : α), (0 : α), (1 : α)⟩, t44⟩, ⟨⟨t83, t83, t84⟩, f⟩)
           else
             if t53 = (0 : α) then
-              (⟨⟨t352, t353, t354⟩, t359⟩, ⟨⟨t297, t295, t293⟩, t303⟩, ⟨⟨t336, t337, t338⟩, t343⟩, ⟨⟨t328, t329, t330⟩, t335⟩, ⟨⟨t326, t326, t327⟩, t44⟩, ⟨⟨(0 : α), (0 : α), (-(1 : α))⟩, f⟩)
+              (⟨⟨t484, t485, t486⟩, t491⟩, ⟨⟨t429, t427, t425⟩, t435⟩, ⟨⟨t468, t469, t470⟩, t475⟩, ⟨⟨t460, t461, t462⟩, t467⟩, ⟨⟨t458, t458, t459⟩, t44⟩, ⟨⟨(0 : α), (0 : α), (-(1 : α))⟩, f⟩)
             else
-              (⟨⟨t352, t353, t354⟩, t359⟩, ⟨⟨t297, t295, t293⟩, t303⟩, ⟨⟨t336, t337, t338⟩, t343⟩, ⟨⟨t328, t329, t330⟩, t335⟩, ⟨⟨t326, t326, t327⟩, t44⟩, ⟨⟨t83, t83, t84⟩, f⟩)
+              (⟨⟨t484, t485, t486⟩, t491⟩, ⟨⟨t429, t427, t425⟩, t435⟩, ⟨⟨t468, t469, t470⟩, t475⟩, ⟨⟨t460, t461, t462⟩, t467⟩, ⟨⟨t458, t458, t459⟩, t44⟩, ⟨⟨t83, t83, t84⟩, f⟩)
     else
-      if t310 = (0 : α) then
-        if t319 = (0 : α) then
-          if t325 = (0 : α) then
+      if t442 = (0 : α) then
+        if t451 = (0 : α) then
+          if t457 = (0 : α) then
             if t53 = (0 : α) then
-              (⟨⟨t352, t353, t354⟩, t359⟩, ⟨⟨t344, t345, t346⟩, t351⟩, ⟨⟨t309, t307, t305⟩, t315⟩, ⟨⟨t318, t317, t316⟩, t324⟩, ⟨⟨(0 : α), (0 : α), (1 : α)⟩, t44⟩, ⟨⟨(0 : α), (0 : α), (-(1 : α))⟩, f⟩)
+              (⟨⟨t484, t485, t486⟩, t491⟩, ⟨⟨t476, t477, t478⟩, t483⟩, ⟨⟨t441, t439, t437⟩, t447⟩, ⟨⟨t450, t449, t448⟩, t456⟩, ⟨⟨(0 : α), (0 : α), (1 : α)⟩, t44⟩, ⟨⟨(0 : α), (0 : α), (-(1 : α))⟩, f⟩)
             else
-              (⟨⟨t352, t353, t354⟩, t359⟩, ⟨⟨t344, t345, t346⟩, t351⟩, ⟨⟨t309, t307, t305⟩, t315⟩, ⟨⟨t318, t317, t316⟩, t324⟩, ⟨⟨(0 : α), (0 : α), (1 : α)⟩, t44⟩, ⟨⟨t83, t83, t84⟩, f⟩)
+              (⟨⟨t484, t485, t486⟩, t491⟩, ⟨⟨t476, t477, t478⟩, t483⟩, ⟨⟨t441, t439, t437⟩, t447⟩, ⟨⟨t450, t449, t448⟩, t456⟩, ⟨⟨(0 : α), (0 : α), (1 : α)⟩, t44⟩, ⟨⟨t83, t83, t84⟩, f⟩)
           else
             if t53 = (0 : α) then
-              (⟨⟨t352, t353, t354⟩, t359⟩, ⟨⟨t344, t345, t346⟩, t351⟩, ⟨⟨t309, t307, t305⟩, t315⟩, ⟨⟨t318, t317, t316⟩, t324⟩, ⟨⟨t326, t326, t327⟩, t44⟩, ⟨⟨(0 : α), (0 : α), (-(1 : α))⟩, f⟩)
+              (⟨⟨t484, t485, t486⟩, t491⟩, ⟨⟨t476, t477, t478⟩, t483⟩, ⟨⟨t441, t439, t437⟩, t447⟩, ⟨⟨t450, t449, t448⟩, t456⟩, ⟨⟨t458, t458, t459⟩, t44⟩, ⟨⟨(0 : α), (0 : α), (-(1 : α))⟩, f⟩)
             else
-              (⟨⟨t352, t353, t354⟩, t359⟩, ⟨⟨t344, t345, t346⟩, t351⟩, ⟨⟨t309, t307, t305⟩, t315⟩, ⟨⟨t318, t317, t316⟩, t324⟩, ⟨⟨t326, t326, t327⟩, t44⟩, ⟨⟨t83, t83, t84⟩, f⟩)
+              (⟨⟨t484, t485, t486⟩, t491⟩, ⟨⟨t476, t477, t478⟩, t483⟩, ⟨⟨t441, t439, t437⟩, t447⟩, ⟨⟨t450, t449, t448⟩, t456⟩, ⟨⟨t458, t458, t459⟩, t44⟩, ⟨⟨t83, t83, t84⟩, f⟩)
         else
-          if t325 = (0 : α) then
+          if t457 = (0 : α) then
             if t53 = (0 : α) then
-              (⟨⟨t352, t353, t354⟩, t359⟩, ⟨⟨t344, t345, t346⟩, t351⟩, ⟨⟨t309, t307, t305⟩, t315⟩, ⟨⟨t328, t329, t330⟩, t335⟩, ⟨⟨(0 : α), (0 : α), (1 : α)⟩, t44⟩, ⟨⟨(0 : α), (0 : α), (-(1 : α))⟩, f⟩)
+              (⟨⟨t484, t485, t486⟩, t491⟩, ⟨⟨t476, t477, t478⟩, t483⟩, ⟨⟨t441, t439, t437⟩, t447⟩, ⟨⟨t460, t461, t462⟩, t467⟩, ⟨⟨(0 : α), (0 : α), (1 : α)⟩, t44⟩, ⟨⟨(0 : α), (0 : α), (-(1 : α))⟩, f⟩)
             else
-              (⟨⟨t352, t353, t354⟩, t359⟩, ⟨⟨t344, t345, t346⟩, t351⟩, ⟨⟨t309, t307, t305⟩, t315⟩, ⟨⟨t328, t329, t330⟩, t335⟩, ⟨⟨(0 : α), (0 : α), (1 : α)⟩, t44⟩, ⟨⟨t83, t83, t84⟩, f⟩)
+              (⟨⟨t484, t485, t486⟩, t491⟩, ⟨⟨t476, t477, t478⟩, t483⟩, ⟨⟨t441, t439, t437⟩, t447⟩, ⟨⟨t460, t461, t462⟩, t467⟩, ⟨⟨(0 : α), (0 : α), (1 : α)⟩, t44⟩, ⟨⟨t83, t83, t84⟩, f⟩)
           else
             if t53 = (0 : α) then
-              (⟨⟨t352, t353, t354⟩, t359⟩, ⟨⟨t344, t345, t346⟩, t351⟩, ⟨⟨t309, t307, t305⟩, t315⟩, ⟨⟨t328, t329, t330⟩, t335⟩, ⟨⟨t326, t326, t327⟩, t44⟩, ⟨⟨(0 : α), (0 : α), (-(1 : α))⟩, f⟩)
+              (⟨⟨t484, t485, t486⟩, t491⟩, ⟨⟨t476, t477, t478⟩, t483⟩, ⟨⟨t441, t439, t437⟩, t447⟩, ⟨⟨t460, t461, t462⟩, t467⟩, ⟨⟨t458, t458, t459⟩, t44⟩, ⟨⟨(0 : α), (0 : α), (-(1 : α))⟩, f⟩)
             else
-              (⟨⟨t352, t353, t354⟩, t359⟩, ⟨⟨t344, t345, t346⟩, t351⟩, ⟨⟨t309, t307, t305⟩, t315⟩, ⟨⟨t328, t329, t330⟩, t335⟩, ⟨⟨t326, t326, t327⟩, t44⟩, ⟨⟨t83, t83, t84⟩, f⟩)
+              (⟨⟨t484, t485, t486⟩, t491⟩, ⟨⟨t476, t477, t478⟩, t483⟩, ⟨⟨t441, t439, t437⟩, t447⟩, ⟨⟨t460, t461, t462⟩, t467⟩, ⟨⟨t458, t458, t459⟩, t44⟩, ⟨⟨t83, t83, t84⟩, f⟩)
       else
-        if t319 = (0 : α) then
-          if t325 = (0 : α) then
+        if t451 = (0 : α) then
+          if t457 = (0 : α) then
             if t53 = (0 : α) then
-              (⟨⟨t352, t353, t354⟩, t359⟩, ⟨⟨t344, t345, t346⟩, t351⟩, ⟨⟨t336, t337, t338⟩, t343⟩, ⟨⟨t318, t317, t316⟩, t324⟩, ⟨⟨(0 : α), (0 : α), (1 : α)⟩, t44⟩, ⟨⟨(0 : α), (0 : α), (-(1 : α))⟩, f⟩)
+              (⟨⟨t484, t485, t486⟩, t491⟩, ⟨⟨t476, t477, t478⟩, t483⟩, ⟨⟨t468, t469, t470⟩, t475⟩, ⟨⟨t450, t449, t448⟩, t456⟩, ⟨⟨(0 : α), (0 : α), (1 : α)⟩, t44⟩, ⟨⟨(0 : α), (0 : α), (-(1 : α))⟩, f⟩)
             else
-              (⟨⟨t352, t353, t354⟩, t359⟩, ⟨⟨t344, t345, t346⟩, t351⟩, ⟨⟨t336, t337, t338⟩, t343⟩, ⟨⟨t318, t317, t316⟩, t324⟩, ⟨⟨(0 : α), (0 : α), (1 : α)⟩, t44⟩, ⟨⟨t83, t83, t84⟩, f⟩)
+              (⟨⟨t484, t485, t486⟩, t491⟩, ⟨⟨t476, t477, t478⟩, t483⟩, ⟨⟨t468, t469, t470⟩, t475⟩, ⟨⟨t450, t449, t448⟩, t456⟩, ⟨⟨(0 : α), (0 : α), (1 : α)⟩, t44⟩, ⟨⟨t83, t83, t84⟩, f⟩)
           else
             if t53 = (0 : α) then
-              (⟨⟨t352, t353, t354⟩, t359⟩, ⟨⟨t344, t345, t346⟩, t351⟩, ⟨⟨t336, t337, t338⟩, t343⟩, ⟨⟨t318, t317, t316⟩, t324⟩, ⟨⟨t326, t326, t327⟩, t44⟩, ⟨⟨(0 : α), (0 : α), (-(1 : α))⟩, f⟩)
+              (⟨⟨t484, t485, t486⟩, t491⟩, ⟨⟨t476, t477, t478⟩, t483⟩, ⟨⟨t468, t469, t470⟩, t475⟩, ⟨⟨t450, t449, t448⟩, t456⟩, ⟨⟨t458, t458, t459⟩, t44⟩, ⟨⟨(0 : α), (0 : α), (-(1 : α))⟩, f⟩)
             else
-              (⟨⟨t352, t353, t354⟩, t359⟩, ⟨⟨t344, t345, t346⟩, t351⟩, ⟨⟨t336, t337, t338⟩, t343⟩, ⟨⟨t318, t317, t316⟩, t324⟩, ⟨⟨t326, t326, t327⟩, t44⟩, ⟨⟨t83, t83, t84⟩, f⟩)
+              (⟨⟨t484, t485, t486⟩, t491⟩, ⟨⟨t476, t477, t478⟩, t483⟩, ⟨⟨t468, t469, t470⟩, t475⟩, ⟨⟨t450, t449, t448⟩, t456⟩, ⟨⟨t458, t458, t459⟩, t44⟩, ⟨⟨t83, t83, t84⟩, f⟩)
         else
-          if t325 = (0 : α) then
+          if t457 = (0 : α) then
             if t53 = (0 : α) then
-              (⟨⟨t352, t353, t354⟩, t359⟩, ⟨⟨t344, t345, t346⟩, t351⟩, ⟨⟨t336, t337, t338⟩, t343⟩, ⟨⟨t328, t329, t330⟩, t335⟩, ⟨⟨(0 : α), (0 : α), (1 : α)⟩, t44⟩, ⟨⟨(0 : α), (0 : α), (-(1 : α))⟩, f⟩)
+              (⟨⟨t484, t485, t486⟩, t491⟩, ⟨⟨t476, t477, t478⟩, t483⟩, ⟨⟨t468, t469, t470⟩, t475⟩, ⟨⟨t460, t461, t462⟩, t467⟩, ⟨⟨(0 : α), (0 : α), (1 : α)⟩, t44⟩, ⟨⟨(0 : α), (0 : α), (-(1 : α))⟩, f⟩)
             else
-              (⟨⟨t352, t353, t354⟩, t359⟩, ⟨⟨t344, t345, t346⟩, t351⟩, ⟨⟨t336, t337, t338⟩, t343⟩, ⟨⟨t328, t329, t330⟩, t335⟩, ⟨⟨(0 : α), (0 : α), (1 : α)⟩, t44⟩, ⟨⟨t83, t83, t84⟩, f⟩)
+              (⟨⟨t484, t485, t486⟩, t491⟩, ⟨⟨t476, t477, t478⟩, t483⟩, ⟨⟨t468, t469, t470⟩, t475⟩, ⟨⟨t460, t461, t462⟩, t467⟩, ⟨⟨(0 : α), (0 : α), (1 : α)⟩, t44⟩, ⟨⟨t83, t83, t84⟩, f⟩)
           else
             if t53 = (0 : α) then
-              (⟨⟨t352, t353, t354⟩, t359⟩, ⟨⟨t344, t345, t346⟩, t351⟩, ⟨⟨t336, t337, t338⟩, t343⟩, ⟨⟨t328, t329, t330⟩, t335⟩, ⟨⟨t326, t326, t327⟩, t44⟩, ⟨⟨(0 : α), (0 : α), (-(1 : α))⟩, f⟩)
+              (⟨⟨t484, t485, t486⟩, t491⟩, ⟨⟨t476, t477, t478⟩, t483⟩, ⟨⟨t468, t469, t470⟩, t475⟩, ⟨⟨t460, t461, t462⟩, t467⟩, ⟨⟨t458, t458, t459⟩, t44⟩, ⟨⟨(0 : α), (0 : α), (-(1 : α))⟩, f⟩)
             else
-              (⟨⟨t352, t353, t354⟩, t359⟩, ⟨⟨t344, t345, t346⟩, t351⟩, ⟨⟨t336, t337, t338⟩, t343⟩, ⟨⟨t328, t329, t330⟩, t335⟩, ⟨⟨t326, t326, t327⟩, t44⟩, ⟨⟨t83, t83, t84⟩, f⟩)
+              (⟨⟨t484, t485, t486⟩, t491⟩, ⟨⟨t476, t477, t478⟩, t483⟩, ⟨⟨t468, t469, t470⟩, t475⟩, ⟨⟨t460, t461, t462⟩, t467⟩, ⟨⟨t458, t458, t459⟩, t44⟩, ⟨⟨t83, t83, t84⟩, f⟩)
 
 /-- extracted from the C++ template at T = Sym; 64 path(s) -/
 def Frustum.planes_ortho {α : Type} [Add α] [Mul α] [Div α] [Neg α] [LT α] [LE α] [DecidableLT α] [DecidableLE α] [DecidableEq α] [OfNat α 0] [OfNat α 1] [OfNat α 2] (tmin : α) (tmax : α) (sqrt : α → α) (n : α) (f : α) (l : α) (r : α) (t : α) (b : α) : ((Plane3 α) × (Plane3 α) × (Plane3 α) × (Plane3 α) × (Plane3 α) × (Plane3 α)) :=
@@ -637,212 +806,212 @@ def Frustum.planes_ortho {α : Type} [Add α] [Mul α] [Div α] [Neg α] [LT α]
   let t53 := (V3.length tmin tmax sqrt ⟨(0 : α), (0 : α), (-(1 : α))⟩)
   let t83 := ((0 : α) / t53)
   let t84 := ((-(1 : α)) / t53)
-  let t325 := (V3.length tmin tmax sqrt ⟨(0 : α), (0 : α), (1 : α)⟩)
-  let t326 := ((0 : α) / t325)
-  let t327 := ((1 : α) / t325)
-  let t360 := (V3.length tmin tmax sqrt ⟨(0 : α), (1 : α), (0 : α)⟩)
-  let t361 := (V3.length tmin tmax sqrt ⟨(1 : α), (0 : α), (0 : α)⟩)
-  let t362 := (-b)
-  let t363 := (V3.length tmin tmax sqrt ⟨(0 : α), (-(1 : α)), (0 : α)⟩)
-  let t364 := (-l)
-  let t365 := (V3.length tmin tmax sqrt ⟨(-(1 : α)), (0 : α), (0 : α)⟩)
-  let t366 := ((-(1 : α)) / t365)
-  let t367 := ((0 : α) / t365)
-  let t368 := ((0 : α) / t363)
-  let t369 := ((-(1 : α)) / t363)
-  let t370 := ((1 : α) / t361)
-  let t371 := ((0 : α) / t361)
-  let t372 := ((0 : α) / t360)
-  let t373 := ((1 : α) / t360)
-  if t360 = (0 : α) then
-    if t361 = (0 : α) then
-      if t363 = (0 : α) then
-        if t365 = (0 : α) then
-          if t325 = (0 : α) then
+  let t457 := (V3.length tmin tmax sqrt ⟨(0 : α), (0 : α), (1 : α)⟩)
+  let t458 := ((0 : α) / t457)
+  let t459 := ((1 : α) / t457)
+  let t492 := (V3.length tmin tmax sqrt ⟨(0 : α), (1 : α), (0 : α)⟩)
+  let t493 := (V3.length tmin tmax sqrt ⟨(1 : α), (0 : α), (0 : α)⟩)
+  let t494 := (-b)
+  let t495 := (V3.length tmin tmax sqrt ⟨(0 : α), (-(1 : α)), (0 : α)⟩)
+  let t496 := (-l)
+  let t497 := (V3.length tmin tmax sqrt ⟨(-(1 : α)), (0 : α), (0 : α)⟩)
+  let t498 := ((-(1 : α)) / t497)
+  let t499 := ((0 : α) / t497)
+  let t500 := ((0 : α) / t495)
+  let t501 := ((-(1 : α)) / t495)
+  let t502 := ((1 : α) / t493)
+  let t503 := ((0 : α) / t493)
+  let t504 := ((0 : α) / t492)
+  let t505 := ((1 : α) / t492)
+  if t492 = (0 : α) then
+    if t493 = (0 : α) then
+      if t495 = (0 : α) then
+        if t497 = (0 : α) then
+          if t457 = (0 : α) then
             if t53 = (0 : α) then
-              (⟨⟨(0 : α), (1 : α), (0 : α)⟩, t⟩, ⟨⟨(1 : α), (0 : α), (0 : α)⟩, r⟩, ⟨⟨(0 : α), (-(1 : α)), (0 : α)⟩, t362⟩, ⟨⟨(-(1 : α)), (0 : α), (0 : α)⟩, t364⟩, ⟨⟨(0 : α), (0 : α), (1 : α)⟩, t44⟩, ⟨⟨(0 : α), (0 : α), (-(1 : α))⟩, f⟩)
+              (⟨⟨(0 : α), (1 : α), (0 : α)⟩, t⟩, ⟨⟨(1 : α), (0 : α), (0 : α)⟩, r⟩, ⟨⟨(0 : α), (-(1 : α)), (0 : α)⟩, t494⟩, ⟨⟨(-(1 : α)), (0 : α), (0 : α)⟩, t496⟩, ⟨⟨(0 : α), (0 : α), (1 : α)⟩, t44⟩, ⟨⟨(0 : α), (0 : α), (-(1 : α))⟩, f⟩)
             else
-              (⟨⟨(0 : α), (1 : α), (0 : α)⟩, t⟩, ⟨⟨(1 : α), (0 : α), (0 : α)⟩, r⟩, ⟨⟨(0 : α), (-(1 : α)), (0 : α)⟩, t362⟩, ⟨⟨(-(1 : α)), (0 : α), (0 : α)⟩, t364⟩, ⟨⟨(0 : α), (0 : α), (1 : α)⟩, t44⟩, ⟨⟨t83, t83, t84⟩, f⟩)
+              (⟨⟨(0 : α), (1 : α), (0 : α)⟩, t⟩, ⟨⟨(1 : α), (0 : α), (0 : α)⟩, r⟩, ⟨⟨(0 : α), (-(1 : α)), (0 : α)⟩, t494⟩, ⟨⟨(-(1 : α)), (0 : α), (0 : α)⟩, t496⟩, ⟨⟨(0 : α), (0 : α), (1 : α)⟩, t44⟩, ⟨⟨t83, t83, t84⟩, f⟩)
           else
             if t53 = (0 : α) then
-              (⟨⟨(0 : α), (1 : α), (0 : α)⟩, t⟩, ⟨⟨(1 : α), (0 : α), (0 : α)⟩, r⟩, ⟨⟨(0 : α), (-(1 : α)), (0 : α)⟩, t362⟩, ⟨⟨(-(1 : α)), (0 : α), (0 : α)⟩, t364⟩, ⟨⟨t326, t326, t327⟩, t44⟩, ⟨⟨(0 : α), (0 : α), (-(1 : α))⟩, f⟩)
+              (⟨⟨(0 : α), (1 : α), (0 : α)⟩, t⟩, ⟨⟨(1 : α), (0 : α), (0 : α)⟩, r⟩, ⟨⟨(0 : α), (-(1 : α)), (0 : α)⟩, t494⟩, ⟨⟨(-(1 : α)), (0 : α), (0 : α)⟩, t496⟩, ⟨⟨t458, t458, t459⟩, t44⟩, ⟨⟨(0 : α), (0 : α), (-(1 : α))⟩, f⟩)
             else
-              (⟨⟨(0 : α), (1 : α), (0 : α)⟩, t⟩, ⟨⟨(1 : α), (0 : α), (0 : α)⟩, r⟩, ⟨⟨(0 : α), (-(1 : α)), (0 : α)⟩, t362⟩, ⟨⟨(-(1 : α)), (0 : α), (0 : α)⟩, t364⟩, ⟨⟨t326, t326, t327⟩, t44⟩, ⟨⟨t83, t83, t84⟩, f⟩)
+              (⟨⟨(0 : α), (1 : α), (0 : α)⟩, t⟩, ⟨⟨(1 : α), (0 : α), (0 : α)⟩, r⟩, ⟨⟨(0 : α), (-(1 : α)), (0 : α)⟩, t494⟩, ⟨⟨(-(1 : α)), (0 : α), (0 : α)⟩, t496⟩, ⟨⟨t458, t458, t459⟩, t44⟩, ⟨⟨t83, t83, t84⟩, f⟩)
         else
-          if t325 = (0 : α) then
+          if t457 = (0 : α) then
             if t53 = (0 : α) then
-              (⟨⟨(0 : α), (1 : α), (0 : α)⟩, t⟩, ⟨⟨(1 : α), (0 : α), (0 : α)⟩, r⟩, ⟨⟨(0 : α), (-(1 : α)), (0 : α)⟩, t362⟩, ⟨⟨t366, t367, t367⟩, t364⟩, ⟨⟨(0 : α), (0 : α), (1 : α)⟩, t44⟩, ⟨⟨(0 : α), (0 : α), (-(1 : α))⟩, f⟩)
+              (⟨⟨(0 : α), (1 : α), (0 : α)⟩, t⟩, ⟨⟨(1 : α), (0 : α), (0 : α)⟩, r⟩, ⟨⟨(0 : α), (-(1 : α)), (0 : α)⟩, t494⟩, ⟨⟨t498, t499, t499⟩, t496⟩, ⟨⟨(0 : α), (0 : α), (1 : α)⟩, t44⟩, ⟨⟨(0 : α), (0 : α), (-(1 : α))⟩, f⟩)
             else
-              (⟨⟨(0 : α), (1 : α), (0 : α)⟩, t⟩, ⟨⟨(1 : α), (0 : α), (0 : α)⟩, r⟩, ⟨⟨(0 : α), (-(1 : α)), (0 : α)⟩, t362⟩, ⟨⟨t366, t367, t367⟩, t364⟩, ⟨⟨(0 : α), (0 : α), (1 : α)⟩, t44⟩, ⟨⟨t83, t83, t84⟩, f⟩)
+              (⟨⟨(0 : α), (1 : α), (0 : α)⟩, t⟩, ⟨⟨(1 : α), (0 : α), (0 : α)⟩, r⟩, ⟨⟨(0 : α), (-(1 : α)), (0 : α)⟩, t494⟩, ⟨⟨t498, t499, t499⟩, t496⟩, ⟨⟨(0 : α), (0 : α), (1 : α)⟩, t44⟩, ⟨⟨t83, t83, t84⟩, f⟩)
           else
             if t53 = (0 : α) then
-              (⟨⟨(0 : α), (1 : α), (0 : α)⟩, t⟩, ⟨⟨(1 : α), (0 : α), (0 : α)⟩, r⟩, ⟨⟨(0 : α), (-(1 : α)), (0 : α)⟩, t362⟩, ⟨⟨t366, t367, t367⟩, t364⟩, ⟨⟨t326, t326, t327⟩, t44⟩, ⟨⟨(0 : α), (0 : α), (-(1 : α))⟩, f⟩)
+              (⟨⟨(0 : α), (1 : α), (0 : α)⟩, t⟩, ⟨⟨(1 : α), (0 : α), (0 : α)⟩, r⟩, ⟨⟨(0 : α), (-(1 : α)), (0 : α)⟩, t494⟩, ⟨⟨t498, t499, t499⟩, t496⟩, ⟨⟨t458, t458, t459⟩, t44⟩, ⟨⟨(0 : α), (0 : α), (-(1 : α))⟩, f⟩)
             else
-              (⟨⟨(0 : α), (1 : α), (0 : α)⟩, t⟩, ⟨⟨(1 : α), (0 : α), (0 : α)⟩, r⟩, ⟨⟨(0 : α), (-(1 : α)), (0 : α)⟩, t362⟩, ⟨⟨t366, t367, t367⟩, t364⟩, ⟨⟨t326, t326, t327⟩, t44⟩, ⟨⟨t83, t83, t84⟩, f⟩)
+              (⟨⟨(0 : α), (1 : α), (0 : α)⟩, t⟩, ⟨⟨(1 : α), (0 : α), (0 : α)⟩, r⟩, ⟨⟨(0 : α), (-(1 : α)), (0 : α)⟩, t494⟩, ⟨⟨t498, t499, t499⟩, t496⟩, ⟨⟨t458, t458, t459⟩, t44⟩, ⟨⟨t83, t83, t84⟩, f⟩)
       else
-        if t365 = (0 : α) then
-          if t325 = (0 : α) then
+        if t497 = (0 : α) then
+          if t457 = (0 : α) then
             if t53 = (0 : α) then
-              (⟨⟨(0 : α), (1 : α), (0 : α)⟩, t⟩, ⟨⟨(1 : α), (0 : α), (0 : α)⟩, r⟩, ⟨⟨t368, t369, t368⟩, t362⟩, ⟨⟨(-(1 : α)), (0 : α), (0 : α)⟩, t364⟩, ⟨⟨(0 : α), (0 : α), (1 : α)⟩, t44⟩, ⟨⟨(0 : α), (0 : α), (-(1 : α))⟩, f⟩)
+              (⟨⟨(0 : α), (1 : α), (0 : α)⟩, t⟩, ⟨⟨(1 : α), (0 : α), (0 : α)⟩, r⟩, ⟨⟨t500, t501, t500⟩, t494⟩, ⟨⟨(-(1 : α)), (0 : α), (0 : α)⟩, t496⟩, ⟨⟨(0 : α), (0 : α), (1 : α)⟩, t44⟩, ⟨⟨(0 : α), (0 : α), (-(1 : α))⟩, f⟩)
             else
-              (⟨⟨(0 : α), (1 : α), (0 : α)⟩, t⟩, ⟨⟨(1 : α), (0 : α), (0 : α)⟩, r⟩, ⟨⟨t368, t369, t368⟩, t362⟩, ⟨⟨(-(1 : α)), (0 : α), (0 : α)⟩, t364⟩, ⟨⟨(0 : α), (0 : α), (1 : α)⟩, t44⟩, ⟨⟨t83, t83, t84⟩, f⟩)
+              (⟨⟨(0 : α), (1 : α), (0 : α)⟩, t⟩, ⟨⟨(1 : α), (0 : α), (0 : α)⟩, r⟩, ⟨⟨t500, t501, t500⟩, t494⟩, ⟨⟨(-(1 : α)), (0 : α), (0 : α)⟩, t496⟩, ⟨⟨(0 : α), (0 : α), (1 : α)⟩, t44⟩, ⟨⟨t83, t83, t84⟩, f⟩)
           else
             if t53 = (0 : α) then
-              (⟨⟨(0 : α), (1 : α), (0 : α)⟩, t⟩, ⟨⟨(1 : α), (0 : α), (0 : α)⟩, r⟩, ⟨⟨t368, t369, t368⟩, t362⟩, ⟨⟨(-(1 : α)), (0 : α), (0 : α)⟩, t364⟩, ⟨⟨t326, t326, t327⟩, t44⟩, ⟨⟨(0 : α), (0 : α), (-(1 : α))⟩, f⟩)
+              (⟨⟨(0 : α), (1 : α), (0 : α)⟩, t⟩, ⟨⟨(1 : α), (0 : α), (0 : α)⟩, r⟩, ⟨⟨t500, t501, t500⟩, t494⟩, ⟨⟨(-(1 : α)), (0 : α), (0 : α)⟩, t496⟩, ⟨⟨t458, t458, t459⟩, t44⟩, ⟨⟨(0 : α), (0 : α), (-(1 : α))⟩, f⟩)
             else
-              (⟨⟨(0 : α), (1 : α), (0 : α)⟩, t⟩, ⟨⟨(1 : α), (0 : α), (0 : α)⟩, r⟩, ⟨⟨t368, t369, t368⟩, t362⟩, ⟨⟨(-(1 : α)), (0 : α), (0 : α)⟩, t364⟩, ⟨⟨t326, t326, t327⟩, t44⟩, ⟨⟨t83, t83, t84⟩, f⟩)
+              (⟨⟨(0 : α), (1 : α), (0 : α)⟩, t⟩, ⟨⟨(1 : α), (0 : α), (0 : α)⟩, r⟩, ⟨⟨t500, t501, t500⟩, t494⟩, ⟨⟨(-(1 : α)), (0 : α), (0 : α)⟩, t496⟩, ⟨⟨t458, t458, t459⟩, t44⟩, ⟨⟨t83, t83, t84⟩, f⟩)
         else
-          if t325 = (0 : α) then
+          if t457 = (0 : α) then
             if t53 = (0 : α) then
-              (⟨⟨(0 : α), (1 : α), (0 : α)⟩, t⟩, ⟨⟨(1 : α), (0 : α), (0 : α)⟩, r⟩, ⟨⟨t368, t369, t368⟩, t362⟩, ⟨⟨t366, t367, t367⟩, t364⟩, ⟨⟨(0 : α), (0 : α), (1 : α)⟩, t44⟩, ⟨⟨(0 : α), (0 : α), (-(1 : α))⟩, f⟩)
+              (⟨⟨(0 : α), (1 : α), (0 : α)⟩, t⟩, ⟨⟨(1 : α), (0 : α), (0 : α)⟩, r⟩, ⟨⟨t500, t501, t500⟩, t494⟩, ⟨⟨t498, t499, t499⟩, t496⟩, ⟨⟨(0 : α), (0 : α), (1 : α)⟩, t44⟩, ⟨⟨(0 : α), (0 : α), (-(1 : α))⟩, f⟩)
             else
-              (⟨⟨(0 : α), (1 : α), (0 : α)⟩, t⟩, ⟨⟨(1 : α), (0 : α), (0 : α)⟩, r⟩, ⟨⟨t368, t369, t368⟩, t362⟩, ⟨⟨t366, t367, t367⟩, t364⟩, ⟨⟨(0 : α), (0 : α), (1 : α)⟩, t44⟩, ⟨⟨t83, t83, t84⟩, f⟩)
+              (⟨⟨(0 : α), (1 : α), (0 : α)⟩, t⟩, ⟨⟨(1 : α), (0 : α), (0 : α)⟩, r⟩, ⟨⟨t500, t501, t500⟩, t494⟩, ⟨⟨t498, t499, t499⟩, t496⟩, ⟨⟨(0 : α), (0 : α), (1 : α)⟩, t44⟩, ⟨⟨t83, t83, t84⟩, f⟩)
           else
             if t53 = (0 : α) then
-              (⟨⟨(0 : α), (1 : α), (0 : α)⟩, t⟩, ⟨⟨(1 : α), (0 : α), (0 : α)⟩, r⟩, ⟨⟨t368, t369, t368⟩, t362⟩, ⟨⟨t366, t367, t367⟩, t364⟩, ⟨⟨t326, t326, t327⟩, t44⟩, ⟨⟨(0 : α), (0 : α), (-(1 : α))⟩, f⟩)
+              (⟨⟨(0 : α), (1 : α), (0 : α)⟩, t⟩, ⟨⟨(1 : α), (0 : α), (0 : α)⟩, r⟩, ⟨⟨t500, t501, t500⟩, t494⟩, ⟨⟨t498, t499, t499⟩, t496⟩, ⟨⟨t458, t458, t459⟩, t44⟩, ⟨⟨(0 : α), (0 : α), (-(1 : α))⟩, f⟩)
             else
-              (⟨⟨(0 : α), (1 : α), (0 : α)⟩, t⟩, ⟨⟨(1 : α), (0 : α), (0 : α)⟩, r⟩, ⟨⟨t368, t369, t368⟩, t362⟩, ⟨⟨t366, t367, t367⟩, t364⟩, ⟨⟨t326, t326, t327⟩, t44⟩, ⟨⟨t83, t83, t84⟩, f⟩)
+              (⟨⟨(0 : α), (1 : α), (0 : α)⟩, t⟩, ⟨⟨(1 : α), (0 : α), (0 : α)⟩, r⟩, ⟨⟨t500, t501, t500⟩, t494⟩, ⟨⟨t498, t499, t499⟩, t496⟩, ⟨⟨t458, t458, t459⟩, t44⟩, ⟨⟨t83, t83, t84⟩, f⟩)
     else
-      if t363 = (0 : α) then
-        if t365 = (0 : α) then
-          if t325 = (0 : α) then
+      if t495 = (0 : α) then
+        if t497 = (0 : α) then
+          if t457 = (0 : α) then
             if t53 = (0 : α) then
-              (⟨⟨(0 : α), (1 : α), (0 : α)⟩, t⟩, ⟨⟨t370, t371, t371⟩, r⟩, ⟨⟨(0 : α), (-(1 : α)), (0 : α)⟩, t362⟩, ⟨⟨(-(1 : α)), (0 : α), (0 : α)⟩, t364⟩, ⟨⟨(0 : α), (0 : α), (1 : α)⟩, t44⟩, ⟨⟨(0 : α), (0 : α), (-(1 : α))⟩, f⟩)
+              (⟨⟨(0 : α), (1 : α), (0 : α)⟩, t⟩, ⟨⟨t502, t503, t503⟩, r⟩, ⟨⟨(0 : α), (-(1 : α)), (0 : α)⟩, t494⟩, ⟨⟨(-(1 : α)), (0 : α), (0 : α)⟩, t496⟩, ⟨⟨(0 : α), (0 : α), (1 : α)⟩, t44⟩, ⟨⟨(0 : α), (0 : α), (-(1 : α))⟩, f⟩)
             else
-              (⟨⟨(0 : α), (1 : α), (0 : α)⟩, t⟩, ⟨⟨t370, t371, t371⟩, r⟩, ⟨⟨(0 : α), (-(1 : α)), (0 : α)⟩, t362⟩, ⟨⟨(-(1 : α)), (0 : α), (0 : α)⟩, t364⟩, ⟨⟨(0 : α), (0 : α), (1 : α)⟩, t44⟩, ⟨⟨t83, t83, t84⟩, f⟩)
+              (⟨⟨(0 : α), (1 : α), (0 : α)⟩, t⟩, ⟨⟨t502, t503, t503⟩, r⟩, ⟨⟨(0 : α), (-(1 : α)), (0 : α)⟩, t494⟩, ⟨⟨(-(1 : α)), (0 : α), (0 : α)⟩, t496⟩, ⟨⟨(0 : α), (0 : α), (1 : α)⟩, t44⟩, ⟨⟨t83, t83, t84⟩, f⟩)
           else
             if t53 = (0 : α) then
-              (⟨⟨(0 : α), (1 : α), (0 : α)⟩, t⟩, ⟨⟨t370, t371, t371⟩, r⟩, ⟨⟨(0 : α), (-(1 : α)), (0 : α)⟩, t362⟩, ⟨⟨(-(1 : α)), (0 : α), (0 : α)⟩, t364⟩, ⟨⟨t326, t326, t327⟩, t44⟩, ⟨⟨(0 : α), (0 : α), (-(1 : α))⟩, f⟩)
+              (⟨⟨(0 : α), (1 : α), (0 : α)⟩, t⟩, ⟨⟨t502, t503, t503⟩, r⟩, ⟨⟨(0 : α), (-(1 : α)), (0 : α)⟩, t494⟩, ⟨⟨(-(1 : α)), (0 : α), (0 : α)⟩, t496⟩, ⟨⟨t458, t458, t459⟩, t44⟩, ⟨⟨(0 : α), (0 : α), (-(1 : α))⟩, f⟩)
             else
-              (⟨⟨(0 : α), (1 : α), (0 : α)⟩, t⟩, ⟨⟨t370, t371, t371⟩, r⟩, ⟨⟨(0 : α), (-(1 : α)), (0 : α)⟩, t362⟩, ⟨⟨(-(1 : α)), (0 : α), (0 : α)⟩, t364⟩, ⟨⟨t326, t326, t327⟩, t44⟩, ⟨⟨t83, t83, t84⟩, f⟩)
+              (⟨⟨(0 : α), (1 : α), (0 : α)⟩, t⟩, ⟨⟨t502, t503, t503⟩, r⟩, ⟨⟨(0 : α), (-(1 : α)), (0 : α)⟩, t494⟩, ⟨⟨(-(1 : α)), (0 : α), (0 : α)⟩, t496⟩, ⟨⟨t458, t458, t459⟩, t44⟩, ⟨⟨t83, t83, t84⟩, f⟩)
         else
-          if t325 = (0 : α) then
+          if t457 = (0 : α) then
             if t53 = (0 : α) then
-              (⟨⟨(0 : α), (1 : α), (0 : α)⟩, t⟩, ⟨⟨t370, t371, t371⟩, r⟩, ⟨⟨(0 : α), (-(1 : α)), (0 : α)⟩, t362⟩, ⟨⟨t366, t367, t367⟩, t364⟩, ⟨⟨(0 : α), (0 : α), (1 : α)⟩, t44⟩, ⟨⟨(0 : α), (0 : α), (-(1 : α))⟩, f⟩)
+              (⟨⟨(0 : α), (1 : α), (0 : α)⟩, t⟩, ⟨⟨t502, t503, t503⟩, r⟩, ⟨⟨(0 : α), (-(1 : α)), (0 : α)⟩, t494⟩, ⟨⟨t498, t499, t499⟩, t496⟩, ⟨⟨(0 : α), (0 : α), (1 : α)⟩, t44⟩, ⟨⟨(0 : α), (0 : α), (-(1 : α))⟩, f⟩)
             else
-              (⟨⟨(0 : α), (1 : α), (0 : α)⟩, t⟩, ⟨⟨t370, t371, t371⟩, r⟩, ⟨⟨(0 : α), (-(1 : α)), (0 : α)⟩, t362⟩, ⟨⟨t366, t367, t367⟩, t364⟩, ⟨⟨(0 : α), (0 : α), (1 : α)⟩, t44⟩, ⟨⟨t83, t83, t84⟩, f⟩)
+              (⟨⟨(0 : α), (1 : α), (0 : α)⟩, t⟩, ⟨⟨t502, t503, t503⟩, r⟩, ⟨⟨(0 : α), (-(1 : α)), (0 : α)⟩, t494⟩, ⟨⟨t498, t499, t499⟩, t496⟩, ⟨⟨(0 : α), (0 : α), (1 : α)⟩, t44⟩, ⟨⟨t83, t83, t84⟩, f⟩)
           else
             if t53 = (0 : α) then
-              (⟨⟨(0 : α), (1 : α), (0 : α)⟩, t⟩, ⟨⟨t370, t371, t371⟩, r⟩, ⟨⟨(0 : α), (-(1 : α)), (0 : α)⟩, t362⟩, ⟨⟨t366, t367, t367⟩, t364⟩, ⟨⟨t326, t326, t327⟩, t44⟩, ⟨⟨(0 : α), (0 : α), (-(1 : α))⟩, f⟩)
+              (⟨⟨(0 : α), (1 : α), (0 : α)⟩, t⟩, ⟨⟨t502, t503, t503⟩, r⟩, ⟨⟨(0 : α), (-(1 : α)), (0 : α)⟩, t494⟩, ⟨⟨t498, t499, t499⟩, t496⟩, ⟨⟨t458, t458, t459⟩, t44⟩, ⟨⟨(0 : α), (0 : α), (-(1 : α))⟩, f⟩)
             else
-              (⟨⟨(0 : α), (1 : α), (0 : α)⟩, t⟩, ⟨⟨t370, t371, t371⟩, r⟩, ⟨⟨(0 : α), (-(1 : α)), (0 : α)⟩, t362⟩, ⟨⟨t366, t367, t367⟩, t364⟩, ⟨⟨t326, t326, t327⟩, t44⟩, ⟨⟨t83, t83, t84⟩, f⟩)
+              (⟨⟨(0 : α), (1 : α), (0 : α)⟩, t⟩, ⟨⟨t502, t503, t503⟩, r⟩, ⟨⟨(0 : α), (-(1 : α)), (0 : α)⟩, t494⟩, ⟨⟨t498, t499, t499⟩, t496⟩, ⟨⟨t458, t458, t459⟩, t44⟩, ⟨⟨t83, t83, t84⟩, f⟩)
       else
-        if t365 = (0 : α) then
-          if t325 = (0 : α) then
+        if t497 = (0 : α) then
+          if t457 = (0 : α) then
             if t53 = (0 : α) then
-              (⟨⟨(0 : α), (1 : α), (0 : α)⟩, t⟩, ⟨⟨t370, t371, t371⟩, r⟩, ⟨⟨t368, t369, t368⟩, t362⟩, ⟨⟨(-(1 : α)), (0 : α), (0 : α)⟩, t364⟩, ⟨⟨(0 : α), (0 : α), (1 : α)⟩, t44⟩, ⟨⟨(0 : α), (0 : α), (-(1 : α))⟩, f⟩)
+              (⟨⟨(0 : α), (1 : α), (0 : α)⟩, t⟩, ⟨⟨t502, t503, t503⟩, r⟩, ⟨⟨t500, t501, t500⟩, t494⟩, ⟨⟨(-(1 : α)), (0 : α), (0 : α)⟩, t496⟩, ⟨⟨(0 : α), (0 : α), (1 : α)⟩, t44⟩, ⟨⟨(0 : α), (0 : α), (-(1 : α))⟩, f⟩)
             else
-              (⟨⟨(0 : α), (1 : α), (0 : α)⟩, t⟩, ⟨⟨t370, t371, t371⟩, r⟩, ⟨⟨t368, t369, t368⟩, t362⟩, ⟨⟨(-(1 : α)), (0 : α), (0 : α)⟩, t364⟩, ⟨⟨(0 : α), (0 : α), (1 : α)⟩, t44⟩, ⟨⟨t83, t83, t84⟩, f⟩)
+              (⟨⟨(0 : α), (1 : α), (0 : α)⟩, t⟩, ⟨⟨t502, t503, t503⟩, r⟩, ⟨⟨t500, t501, t500⟩, t494⟩, ⟨⟨(-(1 : α)), (0 : α), (0 : α)⟩, t496⟩, ⟨⟨(0 : α), (0 : α), (1 : α)⟩, t44⟩, ⟨⟨t83, t83, t84⟩, f⟩)
           else
             if t53 = (0 : α) then
-              (⟨⟨(0 : α), (1 : α), (0 : α)⟩, t⟩, ⟨⟨t370, t371, t371⟩, r⟩, ⟨⟨t368, t369, t368⟩, t362⟩, ⟨⟨(-(1 : α)), (0 : α), (0 : α)⟩, t364⟩, ⟨⟨t326, t326, t327⟩, t44⟩, ⟨⟨(0 : α), (0 : α), (-(1 : α))⟩, f⟩)
+              (⟨⟨(0 : α), (1 : α), (0 : α)⟩, t⟩, ⟨⟨t502, t503, t503⟩, r⟩, ⟨⟨t500, t501, t500⟩, t494⟩, ⟨⟨(-(1 : α)), (0 : α), (0 : α)⟩, t496⟩, ⟨⟨t458, t458, t459⟩, t44⟩, ⟨⟨(0 : α), (0 : α), (-(1 : α))⟩, f⟩)
             else
-              (⟨⟨(0 : α), (1 : α), (0 : α)⟩, t⟩, ⟨⟨t370, t371, t371⟩, r⟩, ⟨⟨t368, t369, t368⟩, t362⟩, ⟨⟨(-(1 : α)), (0 : α), (0 : α)⟩, t364⟩, ⟨⟨t326, t326, t327⟩, t44⟩, ⟨⟨t83, t83, t84⟩, f⟩)
+              (⟨⟨(0 : α), (1 : α), (0 : α)⟩, t⟩, ⟨⟨t502, t503, t503⟩, r⟩, ⟨⟨t500, t501, t500⟩, t494⟩, ⟨⟨(-(1 : α)), (0 : α), (0 : α)⟩, t496⟩, ⟨⟨t458, t458, t459⟩, t44⟩, ⟨⟨t83, t83, t84⟩, f⟩)
         else
-          if t325 = (0 : α) then
+          if t457 = (0 : α) then
             if t53 = (0 : α) then
-              (⟨⟨(0 : α), (1 : α), (0 : α)⟩, t⟩, ⟨⟨t370, t371, t371⟩, r⟩, ⟨⟨t368, t369, t368⟩, t362⟩, ⟨⟨t366, t367, t367⟩, t364⟩, ⟨⟨(0 : α), (0 : α), (1 : α)⟩, t44⟩, ⟨⟨(0 : α), (0 : α), (-(1 : α))⟩, f⟩)
+              (⟨⟨(0 : α), (1 : α), (0 : α)⟩, t⟩, ⟨⟨t502, t503, t503⟩, r⟩, ⟨⟨t500, t501, t500⟩, t494⟩, ⟨⟨t498, t499, t499⟩, t496⟩, ⟨⟨(0 : α), (0 : α), (1 : α)⟩, t44⟩, ⟨⟨(0 : α), (0 : α), (-(1 : α))⟩, f⟩)
             else
-              (⟨⟨(0 : α), (1 : α), (0 : α)⟩, t⟩, ⟨⟨t370, t371, t371⟩, r⟩, ⟨⟨t368, t369, t368⟩, t362⟩, ⟨⟨t366, t367, t367⟩, t364⟩, ⟨⟨(0 : α), (0 : α), (1 : α)⟩, t44⟩, ⟨⟨t83, t83, t84⟩, f⟩)
+              (⟨⟨(0 : α), (1 : α), (0 : α)⟩, t⟩, ⟨⟨t502, t503, t503⟩, r⟩, ⟨⟨t500, t501, t500⟩, t494⟩, ⟨⟨t498, t499, t499⟩, t496⟩, ⟨⟨(0 : α), (0 : α), (1 : α)⟩, t44⟩, ⟨⟨t83, t83, t84⟩, f⟩)
           else
             if t53 = (0 : α) then
-              (⟨⟨(0 : α), (1 : α), (0 : α)⟩, t⟩, ⟨⟨t370, t371, t371⟩, r⟩, ⟨⟨t368, t369, t368⟩, t362⟩, ⟨⟨t366, t367, t367⟩, t364⟩, ⟨⟨t326, t326, t327⟩, t44⟩, ⟨⟨(0 : α), (0 : α), (-(1 : α))⟩, f⟩)
+              (⟨⟨(0 : α), (1 : α), (0 : α)⟩, t⟩, ⟨⟨t502, t503, t503⟩, r⟩, ⟨⟨t500, t501, t500⟩, t494⟩, ⟨⟨t498, t499, t499⟩, t496⟩, ⟨⟨t458, t458, t459⟩, t44⟩, ⟨⟨(0 : α), (0 : α), (-(1 : α))⟩, f⟩)
             else
-              (⟨⟨(0 : α), (1 : α), (0 : α)⟩, t⟩, ⟨⟨t370, t371, t371⟩, r⟩, ⟨⟨t368, t369, t368⟩, t362⟩, ⟨⟨t366, t367, t367⟩, t364⟩, ⟨⟨t326, t326, t327⟩, t44⟩, ⟨⟨t83, t83, t84⟩, f⟩)
+              (⟨⟨(0 : α), (1 : α), (0 : α)⟩, t⟩, ⟨⟨t502, t503, t503⟩, r⟩, ⟨⟨t500, t501, t500⟩, t494⟩, ⟨⟨t498, t499, t499⟩, t496⟩, ⟨⟨t458, t458, t459⟩, t44⟩, ⟨⟨t83, t83, t84⟩, f⟩)
   else
-    if t361 = (0 : α) then
-      if t363 = (0 : α) then
-        if t365 = (0 : α) then
-          if t325 = (0 : α) then
+    if t493 = (0 : α) then
+      if t495 = (0 : α) then
+        if t497 = (0 : α) then
+          if t457 = (0 : α) then
             if t53 = (0 : α) then
-              (⟨⟨t372, t373, t372⟩, t⟩, ⟨⟨(1 : α), (0 : α), (0 : α)⟩, r⟩, ⟨⟨(0 : α), (-(1 : α)), (0 : α)⟩, t362⟩, ⟨⟨(-(1 : α)), (0 : α), (0 : α)⟩, t364⟩, ⟨⟨(0 : α), (0 : α), (1 : α)⟩, t44⟩, ⟨⟨(0 : α), (0 : α), (-(1 : α))⟩, f⟩)
+              (⟨⟨t504, t505, t504⟩, t⟩, ⟨⟨(1 : α), (0 : α), (0 : α)⟩, r⟩, ⟨⟨(0 : α), (-(1 : α)), (0 : α)⟩, t494⟩, ⟨⟨(-(1 : α)), (0 : α), (0 : α)⟩, t496⟩, ⟨⟨(0 : α), (0 : α), (1 : α)⟩, t44⟩, ⟨⟨(0 : α), (0 : α), (-(1 : α))⟩, f⟩)
             else
-              (⟨⟨t372, t373, t372⟩, t⟩, ⟨⟨(1 : α), (0 : α), (0 : α)⟩, r⟩, ⟨⟨(0 : α), (-(1 : α)), (0 : α)⟩, t362⟩, ⟨⟨(-(1 : α)), (0 : α), (0 : α)⟩, t364⟩, ⟨⟨(0 : α), (0 : α), (1 : α)⟩, t44⟩, ⟨⟨t83, t83, t84⟩, f⟩)
+              (⟨⟨t504, t505, t504⟩, t⟩, ⟨⟨(1 : α), (0 : α), (0 : α)⟩, r⟩, ⟨⟨(0 : α), (-(1 : α)), (0 : α)⟩, t494⟩, ⟨⟨(-(1 : α)), (0 : α), (0 : α)⟩, t496⟩, ⟨⟨(0 : α), (0 : α), (1 : α)⟩, t44⟩, ⟨⟨t83, t83, t84⟩, f⟩)
           else
             if t53 = (0 : α) then
-              (⟨⟨t372, t373, t372⟩, t⟩, ⟨⟨(1 : α), (0 : α), (0 : α)⟩, r⟩, ⟨⟨(0 : α), (-(1 : α)), (0 : α)⟩, t362⟩, ⟨⟨(-(1 : α)), (0 : α), (0 : α)⟩, t364⟩, ⟨⟨t326, t326, t327⟩, t44⟩, ⟨⟨(0 : α), (0 : α), (-(1 : α))⟩, f⟩)
+              (⟨⟨t504, t505, t504⟩, t⟩, ⟨⟨(1 : α), (0 : α), (0 : α)⟩, r⟩, ⟨⟨(0 : α), (-(1 : α)), (0 : α)⟩, t494⟩, ⟨⟨(-(1 : α)), (0 : α), (0 : α)⟩, t496⟩, ⟨⟨t458, t458, t459⟩, t44⟩, ⟨⟨(0 : α), (0 : α), (-(1 : α))⟩, f⟩)
             else
-              (⟨⟨t372, t373, t372⟩, t⟩, ⟨⟨(1 : α), (0 : α), (0 : α)⟩, r⟩, ⟨⟨(0 : α), (-(1 : α)), (0 : α)⟩, t362⟩, ⟨⟨(-(1 : α)), (0 : α), (0 : α)⟩, t364⟩, ⟨⟨t326, t326, t327⟩, t44⟩, ⟨⟨t83, t83, t84⟩, f⟩)
+              (⟨⟨t504, t505, t504⟩, t⟩, ⟨⟨(1 : α), (0 : α), (0 : α)⟩, r⟩, ⟨⟨(0 : α), (-(1 : α)), (0 : α)⟩, t494⟩, ⟨⟨(-(1 : α)), (0 : α), (0 : α)⟩, t496⟩, ⟨⟨t458, t458, t459⟩, t44⟩, ⟨⟨t83, t83, t84⟩, f⟩)
         else
-          if t325 = (0 : α) then
+          if t457 = (0 : α) then
             if t53 = (0 : α) then
-              (⟨⟨t372, t373, t372⟩, t⟩, ⟨⟨(1 : α), (0 : α), (0 : α)⟩, r⟩, ⟨⟨(0 : α), (-(1 : α)), (0 : α)⟩, t362⟩, ⟨⟨t366, t367, t367⟩, t364⟩, ⟨⟨(0 : α), (0 : α), (1 : α)⟩, t44⟩, ⟨⟨(0 : α), (0 : α), (-(1 : α))⟩, f⟩)
+              (⟨⟨t504, t505, t504⟩, t⟩, ⟨⟨(1 : α), (0 : α), (0 : α)⟩, r⟩, ⟨⟨(0 : α), (-(1 : α)), (0 : α)⟩, t494⟩, ⟨⟨t498, t499, t499⟩, t496⟩, ⟨⟨(0 : α), (0 : α), (1 : α)⟩, t44⟩, ⟨⟨(0 : α), (0 : α), (-(1 : α))⟩, f⟩)
             else
-              (⟨⟨t372, t373, t372⟩, t⟩, ⟨⟨(1 : α), (0 : α), (0 : α)⟩, r⟩, ⟨⟨(0 : α), (-(1 : α)), (0 : α)⟩, t362⟩, ⟨⟨t366, t367, t367⟩, t364⟩, ⟨⟨(0 : α), (0 : α), (1 : α)⟩, t44⟩, ⟨⟨t83, t83, t84⟩, f⟩)
+              (⟨⟨t504, t505, t504⟩, t⟩, ⟨⟨(1 : α), (0 : α), (0 : α)⟩, r⟩, ⟨⟨(0 : α), (-(1 : α)), (0 : α)⟩, t494⟩, ⟨⟨t498, t499, t499⟩, t496⟩, ⟨⟨(0 : α), (0 : α), (1 : α)⟩, t44⟩, ⟨⟨t83, t83, t84⟩, f⟩)
           else
             if t53 = (0 : α) then
-              (⟨⟨t372, t373, t372⟩, t⟩, ⟨⟨(1 : α), (0 : α), (0 : α)⟩, r⟩, ⟨⟨(0 : α), (-(1 : α)), (0 : α)⟩, t362⟩, ⟨⟨t366, t367, t367⟩, t364⟩, ⟨⟨t326, t326, t327⟩, t44⟩, ⟨⟨(0 : α), (0 : α), (-(1 : α))⟩, f⟩)
+              (⟨⟨t504, t505, t504⟩, t⟩, ⟨⟨(1 : α), (0 : α), (0 : α)⟩, r⟩, ⟨⟨(0 : α), (-(1 : α)), (0 : α)⟩, t494⟩, ⟨⟨t498, t499, t499⟩, t496⟩, ⟨⟨t458, t458, t459⟩, t44⟩, ⟨⟨(0 : α), (0 : α), (-(1 : α))⟩, f⟩)
             else
-              (⟨⟨t372, t373, t372⟩, t⟩, ⟨⟨(1 : α), (0 : α), (0 : α)⟩, r⟩, ⟨⟨(0 : α), (-(1 : α)), (0 : α)⟩, t362⟩, ⟨⟨t366, t367, t367⟩, t364⟩, ⟨⟨t326, t326, t327⟩, t44⟩, ⟨⟨t83, t83, t84⟩, f⟩)
+              (⟨⟨t504, t505, t504⟩, t⟩, ⟨⟨(1 : α), (0 : α), (0 : α)⟩, r⟩, ⟨⟨(0 : α), (-(1 : α)), (0 : α)⟩, t494⟩, ⟨⟨t498, t499, t499⟩, t496⟩, ⟨⟨t458, t458, t459⟩, t44⟩, ⟨⟨t83, t83, t84⟩, f⟩)
       else
-        if t365 = (0 : α) then
-          if t325 = (0 : α) then
+        if t497 = (0 : α) then
+          if t457 = (0 : α) then
             if t53 = (0 : α) then
-              (⟨⟨t372, t373, t372⟩, t⟩, ⟨⟨(1 : α), (0 : α), (0 : α)⟩, r⟩, ⟨⟨t368, t369, t368⟩, t362⟩, ⟨⟨(-(1 : α)), (0 : α), (0 : α)⟩, t364⟩, ⟨⟨(0 : α), (0 : α), (1 : α)⟩, t44⟩, ⟨⟨(0 : α), (0 : α), (-(1 : α))⟩, f⟩)
+              (⟨⟨t504, t505, t504⟩, t⟩, ⟨⟨(1 : α), (0 : α), (0 : α)⟩, r⟩, ⟨⟨t500, t501, t500⟩, t494⟩, ⟨⟨(-(1 : α)), (0 : α), (0 : α)⟩, t496⟩, ⟨⟨(0 : α), (0 : α), (1 : α)⟩, t44⟩, ⟨⟨(0 : α), (0 : α), (-(1 : α))⟩, f⟩)
             else
-              (⟨⟨t372, t373, t372⟩, t⟩, ⟨⟨(1 : α), (0 : α), (0 : α)⟩, r⟩, ⟨⟨t368, t369, t368⟩, t362⟩, ⟨⟨(-(1 : α)), (0 : α), (0 : α)⟩, t364⟩, ⟨⟨(0 : α), (0 : α), (1 : α)⟩, t44⟩, ⟨⟨t83, t83, t84⟩, f⟩)
+              (⟨⟨t504, t505, t504⟩, t⟩, ⟨⟨(1 : α), (0 : α), (0 : α)⟩, r⟩, ⟨⟨t500, t501, t500⟩, t494⟩, ⟨⟨(-(1 : α)), (0 : α), (0 : α)⟩, t496⟩, ⟨⟨(0 : α), (0 : α), (1 : α)⟩, t44⟩, ⟨⟨t83, t83, t84⟩, f⟩)
           else
             if t53 = (0 : α) then
-              (⟨⟨t372, t373, t372⟩, t⟩, ⟨⟨(1 : α), (0 : α), (0 : α)⟩, r⟩, ⟨⟨t368, t369, t368⟩, t362⟩, ⟨⟨(-(1 : α)), (0 : α), (0 : α)⟩, t364⟩, ⟨⟨t326, t326, t327⟩, t44⟩, ⟨⟨(0 : α), (0 : α), (-(1 : α))⟩, f⟩)
+              (⟨⟨t504, t505, t504⟩, t⟩, ⟨⟨(1 : α), (0 : α), (0 : α)⟩, r⟩, ⟨⟨t500, t501, t500⟩, t494⟩, ⟨⟨(-(1 : α)), (0 : α), (0 : α)⟩, t496⟩, ⟨⟨t458, t458, t459⟩, t44⟩, ⟨⟨(0 : α), (0 : α), (-(1 : α))⟩, f⟩)
             else
-              (⟨⟨t372, t373, t372⟩, t⟩, ⟨⟨(1 : α), (0 : α), (0 : α)⟩, r⟩, ⟨⟨t368, t369, t368⟩, t362⟩, ⟨⟨(-(1 : α)), (0 : α), (0 : α)⟩, t364⟩, ⟨⟨t326, t326, t327⟩, t44⟩, ⟨⟨t83, t83, t84⟩, f⟩)
+              (⟨⟨t504, t505, t504⟩, t⟩, ⟨⟨(1 : α), (0 : α), (0 : α)⟩, r⟩, ⟨⟨t500, t501, t500⟩, t494⟩, ⟨⟨(-(1 : α)), (0 : α), (0 : α)⟩, t496⟩, ⟨⟨t458, t458, t459⟩, t44⟩, ⟨⟨t83, t83, t84⟩, f⟩)
         else
-          if t325 = (0 : α) then
+          if t457 = (0 : α) then
             if t53 = (0 : α) then
-              (⟨⟨t372, t373, t372⟩, t⟩, ⟨⟨(1 : α), (0 : α), (0 : α)⟩, r⟩, ⟨⟨t368, t369, t368⟩, t362⟩, ⟨⟨t366, t367, t367⟩, t364⟩, ⟨⟨(0 : α), (0 : α), (1 : α)⟩, t44⟩, ⟨⟨(0 : α), (0 : α), (-(1 : α))⟩, f⟩)
+              (⟨⟨t504, t505, t504⟩, t⟩, ⟨⟨(1 : α), (0 : α), (0 : α)⟩, r⟩, ⟨⟨t500, t501, t500⟩, t494⟩, ⟨⟨t498, t499, t499⟩, t496⟩, ⟨⟨(0 : α), (0 : α), (1 : α)⟩, t44⟩, ⟨⟨(0 : α), (0 : α), (-(1 : α))⟩, f⟩)
             else
-              (⟨⟨t372, t373, t372⟩, t⟩, ⟨⟨(1 : α), (0 : α), (0 : α)⟩, r⟩, ⟨⟨t368, t369, t368⟩, t362⟩, ⟨⟨t366, t367, t367⟩, t364⟩, ⟨⟨(0 : α), (0 : α), (1 : α)⟩, t44⟩, ⟨⟨t83, t83, t84⟩, f⟩)
+              (⟨⟨t504, t505, t504⟩, t⟩, ⟨⟨(1 : α), (0 : α), (0 : α)⟩, r⟩, ⟨⟨t500, t501, t500⟩, t494⟩, ⟨⟨t498, t499, t499⟩, t496⟩, ⟨⟨(0 : α), (0 : α), (1 : α)⟩, t44⟩, ⟨⟨t83, t83, t84⟩, f⟩)
           else
             if t53 = (0 : α) then
-              (⟨⟨t372, t373, t372⟩, t⟩, ⟨⟨(1 : α), (0 : α), (0 : α)⟩, r⟩, ⟨⟨t368, t369, t368⟩, t362⟩, ⟨⟨t366, t367, t367⟩, t364⟩, ⟨⟨t326, t326, t327⟩, t44⟩, ⟨⟨(0 : α), (0 : α), (-(1 : α))⟩, f⟩)
+              (⟨⟨t504, t505, t504⟩, t⟩, ⟨⟨(1 : α), (0 : α), (0 : α)⟩, r⟩, ⟨⟨t500, t501, t500⟩, t494⟩, ⟨⟨t498, t499, t499⟩, t496⟩, ⟨⟨t458, t458, t459⟩, t44⟩, ⟨⟨(0 : α), (0 : α), (-(1 : α))⟩, f⟩)
             else
-              (⟨⟨t372, t373, t372⟩, t⟩, ⟨⟨(1 : α), (0 : α), (0 : α)⟩, r⟩, ⟨⟨t368, t369, t368⟩, t362⟩, ⟨⟨t366, t367, t367⟩, t364⟩, ⟨⟨t326, t326, t327⟩, t44⟩, ⟨⟨t83, t83, t84⟩, f⟩)
+              (⟨⟨t504, t505, t504⟩, t⟩, ⟨⟨(1 : α), (0 : α), (0 : α)⟩, r⟩, ⟨⟨t500, t501, t500⟩, t494⟩, ⟨⟨t498, t499, t499⟩, t496⟩, ⟨⟨t458, t458, t459⟩, t44⟩, ⟨⟨t83, t83, t84⟩, f⟩)
     else
-      if t363 = (0 : α) then
-        if t365 = (0 : α) then
-          if t325 = (0 : α) then
+      if t495 = (0 : α) then
+        if t497 = (0 : α) then
+          if t457 = (0 : α) then
             if t53 = (0 : α) then
-              (⟨⟨t372, t373, t372⟩, t⟩, ⟨⟨t370, t371, t371⟩, r⟩, ⟨⟨(0 : α), (-(1 : α)), (0 : α)⟩, t362⟩, ⟨⟨(-(1 : α)), (0 : α), (0 : α)⟩, t364⟩, ⟨⟨(0 : α), (0 : α), (1 : α)⟩, t44⟩, ⟨⟨(0 : α), (0 : α), (-(1 : α))⟩, f⟩)
+              (⟨⟨t504, t505, t504⟩, t⟩, ⟨⟨t502, t503, t503⟩, r⟩, ⟨⟨(0 : α), (-(1 : α)), (0 : α)⟩, t494⟩, ⟨⟨(-(1 : α)), (0 : α), (0 : α)⟩, t496⟩, ⟨⟨(0 : α), (0 : α), (1 : α)⟩, t44⟩, ⟨⟨(0 : α), (0 : α), (-(1 : α))⟩, f⟩)
             else
-              (⟨⟨t372, t373, t372⟩, t⟩, ⟨⟨t370, t371, t371⟩, r⟩, ⟨⟨(0 : α), (-(1 : α)), (0 : α)⟩, t362⟩, ⟨⟨(-(1 : α)), (0 : α), (0 : α)⟩, t364⟩, ⟨⟨(0 : α), (0 : α), (1 : α)⟩, t44⟩, ⟨⟨t83, t83, t84⟩, f⟩)
+              (⟨⟨t504, t505, t504⟩, t⟩, ⟨⟨t502, t503, t503⟩, r⟩, ⟨⟨(0 : α), (-(1 : α)), (0 : α)⟩, t494⟩, ⟨⟨(-(1 : α)), (0 : α), (0 : α)⟩, t496⟩, ⟨⟨(0 : α), (0 : α), (1 : α)⟩, t44⟩, ⟨⟨t83, t83, t84⟩, f⟩)
           else
             if t53 = (0 : α) then
-              (⟨⟨t372, t373, t372⟩, t⟩, ⟨⟨t370, t371, t371⟩, r⟩, ⟨⟨(0 : α), (-(1 : α)), (0 : α)⟩, t362⟩, ⟨⟨(-(1 : α)), (0 : α), (0 : α)⟩, t364⟩, ⟨⟨t326, t326, t327⟩, t44⟩, ⟨⟨(0 : α), (0 : α), (-(1 : α))⟩, f⟩)
+              (⟨⟨t504, t505, t504⟩, t⟩, ⟨⟨t502, t503, t503⟩, r⟩, ⟨⟨(0 : α), (-(1 : α)), (0 : α)⟩, t494⟩, ⟨⟨(-(1 : α)), (0 : α), (0 : α)⟩, t496⟩, ⟨⟨t458, t458, t459⟩, t44⟩, ⟨⟨(0 : α), (0 : α), (-(1 : α))⟩, f⟩)
             else
-              (⟨⟨t372, t373, t372⟩, t⟩, ⟨⟨t370, t371, t371⟩, r⟩, ⟨⟨(0 : α), (-(1 : α)), (0 : α)⟩, t362⟩, ⟨⟨(-(1 : α)), (0 : α), (0 : α)⟩, t364⟩, ⟨⟨t326, t326, t327⟩, t44⟩, ⟨⟨t83, t83, t84⟩, f⟩)
+              (⟨⟨t504, t505, t504⟩, t⟩, ⟨⟨t502, t503, t503⟩, r⟩, ⟨⟨(0 : α), (-(1 : α)), (0 : α)⟩, t494⟩, ⟨⟨(-(1 : α)), (0 : α), (0 : α)⟩, t496⟩, ⟨⟨t458, t458, t459⟩, t44⟩, ⟨⟨t83, t83, t84⟩, f⟩)
         else
-          if t325 = (0 : α) then
+          if t457 = (0 : α) then
             if t53 = (0 : α) then
-              (⟨⟨t372, t373, t372⟩, t⟩, ⟨⟨t370, t371, t371⟩, r⟩, ⟨⟨(0 : α), (-(1 : α)), (0 : α)⟩, t362⟩, ⟨⟨t366, t367, t367⟩, t364⟩, ⟨⟨(0 : α), (0 : α), (1 : α)⟩, t44⟩, ⟨⟨(0 : α), (0 : α), (-(1 : α))⟩, f⟩)
+              (⟨⟨t504, t505, t504⟩, t⟩, ⟨⟨t502, t503, t503⟩, r⟩, ⟨⟨(0 : α), (-(1 : α)), (0 : α)⟩, t494⟩, ⟨⟨t498, t499, t499⟩, t496⟩, ⟨⟨(0 : α), (0 : α), (1 : α)⟩, t44⟩, ⟨⟨(0 : α), (0 : α), (-(1 : α))⟩, f⟩)
             else
-              (⟨⟨t372, t373, t372⟩, t⟩, ⟨⟨t370, t371, t371⟩, r⟩, ⟨⟨(0 : α), (-(1 : α)), (0 : α)⟩, t362⟩, ⟨⟨t366, t367, t367⟩, t364⟩, ⟨⟨(0 : α), (0 : α), (1 : α)⟩, t44⟩, ⟨⟨t83, t83, t84⟩, f⟩)
+              (⟨⟨t504, t505, t504⟩, t⟩, ⟨⟨t502, t503, t503⟩, r⟩, ⟨⟨(0 : α), (-(1 : α)), (0 : α)⟩, t494⟩, ⟨⟨t498, t499, t499⟩, t496⟩, ⟨⟨(0 : α), (0 : α), (1 : α)⟩, t44⟩, ⟨⟨t83, t83, t84⟩, f⟩)
           else
             if t53 = (0 : α) then
-              (⟨⟨t372, t373, t372⟩, t⟩, ⟨⟨t370, t371, t371⟩, r⟩, ⟨⟨(0 : α), (-(1 : α)), (0 : α)⟩, t362⟩, ⟨⟨t366, t367, t367⟩, t364⟩, ⟨⟨t326, t326, t327⟩, t44⟩, ⟨⟨(0 : α), (0 : α), (-(1 : α))⟩, f⟩)
+              (⟨⟨t504, t505, t504⟩, t⟩, ⟨⟨t502, t503, t503⟩, r⟩, ⟨⟨(0 : α), (-(1 : α)), (0 : α)⟩, t494⟩, ⟨⟨t498, t499, t499⟩, t496⟩, ⟨⟨t458, t458, t459⟩, t44⟩, ⟨⟨(0 : α), (0 : α), (-(1 : α))⟩, f⟩)
             else
-              (⟨⟨t372, t373, t372⟩, t⟩, ⟨⟨t370, t371, t371⟩, r⟩, ⟨⟨(0 : α), (-(1 : α)), (0 : α)⟩, t362⟩, ⟨⟨t366, t367, t367⟩, t364⟩, ⟨⟨t326, t326, t327⟩, t44⟩, ⟨⟨t83, t83, t84⟩, f⟩)
+              (⟨⟨t504, t505, t504⟩, t⟩, ⟨⟨t502, t503, t503⟩, r⟩, ⟨⟨(0 : α), (-(1 : α)), (0 : α)⟩, t494⟩, ⟨⟨t498, t499, t499⟩, t496⟩, ⟨⟨t458, t458, t459⟩, t44⟩, ⟨⟨t83, t83, t84⟩, f⟩)
       else
-        if t365 = (0 : α) then
-          if t325 = (0 : α) then
+        if t497 = (0 : α) then
+          if t457 = (0 : α) then
             if t53 = (0 : α) then
-              (⟨⟨t372, t373, t372⟩, t⟩, ⟨⟨t370, t371, t371⟩, r⟩, ⟨⟨t368, t369, t368⟩, t362⟩, ⟨⟨(-(1 : α)), (0 : α), (0 : α)⟩, t364⟩, ⟨⟨(0 : α), (0 : α), (1 : α)⟩, t44⟩, ⟨⟨(0 : α), (0 : α), (-(1 : α))⟩, f⟩)
+              (⟨⟨t504, t505, t504⟩, t⟩, ⟨⟨t502, t503, t503⟩, r⟩, ⟨⟨t500, t501, t500⟩, t494⟩, ⟨⟨(-(1 : α)), (0 : α), (0 : α)⟩, t496⟩, ⟨⟨(0 : α), (0 : α), (1 : α)⟩, t44⟩, ⟨⟨(0 : α), (0 : α), (-(1 : α))⟩, f⟩)
             else
-              (⟨⟨t372, t373, t372⟩, t⟩, ⟨⟨t370, t371, t371⟩, r⟩, ⟨⟨t368, t369, t368⟩, t362⟩, ⟨⟨(-(1 : α)), (0 : α), (0 : α)⟩, t364⟩, ⟨⟨(0 : α), (0 : α), (1 : α)⟩, t44⟩, ⟨⟨t83, t83, t84⟩, f⟩)
+              (⟨⟨t504, t505, t504⟩, t⟩, ⟨⟨t502, t503, t503⟩, r⟩, ⟨⟨t500, t501, t500⟩, t494⟩, ⟨⟨(-(1 : α)), (0 : α), (0 : α)⟩, t496⟩, ⟨⟨(0 : α), (0 : α), (1 : α)⟩, t44⟩, ⟨⟨t83, t83, t84⟩, f⟩)
           else
             if t53 = (0 : α) then
-              (⟨⟨t372, t373, t372⟩, t⟩, ⟨⟨t370, t371, t371⟩, r⟩, ⟨⟨t368, t369, t368⟩, t362⟩, ⟨⟨(-(1 : α)), (0 : α), (0 : α)⟩, t364⟩, ⟨⟨t326, t326, t327⟩, t44⟩, ⟨⟨(0 : α), (0 : α), (-(1 : α))⟩, f⟩)
+              (⟨⟨t504, t505, t504⟩, t⟩, ⟨⟨t502, t503, t503⟩, r⟩, ⟨⟨t500, t501, t500⟩, t494⟩, ⟨⟨(-(1 : α)), (0 : α), (0 : α)⟩, t496⟩, ⟨⟨t458, t458, t459⟩, t44⟩, ⟨⟨(0 : α), (0 : α), (-(1 : α))⟩, f⟩)
             else
-              (⟨⟨t372, t373, t372⟩, t⟩, ⟨⟨t370, t371, t371⟩, r⟩, ⟨⟨t368, t369, t368⟩, t362⟩, ⟨⟨(-(1 : α)), (0 : α), (0 : α)⟩, t364⟩, ⟨⟨t326, t326, t327⟩, t44⟩, ⟨⟨t83, t83, t84⟩, f⟩)
+              (⟨⟨t504, t505, t504⟩, t⟩, ⟨⟨t502, t503, t503⟩, r⟩, ⟨⟨t500, t501, t500⟩, t494⟩, ⟨⟨(-(1 : α)), (0 : α), (0 : α)⟩, t496⟩, ⟨⟨t458, t458, t459⟩, t44⟩, ⟨⟨t83, t83, t84⟩, f⟩)
         else
-          if t325 = (0 : α) then
+          if t457 = (0 : α) then
             if t53 = (0 : α) then
-              (⟨⟨t372, t373, t372⟩, t⟩, ⟨⟨t370, t371, t371⟩, r⟩, ⟨⟨t368, t369, t368⟩, t362⟩, ⟨⟨t366, t367, t367⟩, t364⟩, ⟨⟨(0 : α), (0 : α), (1 : α)⟩, t44⟩, ⟨⟨(0 : α), (0 : α), (-(1 : α))⟩, f⟩)
+              (⟨⟨t504, t505, t504⟩, t⟩, ⟨⟨t502, t503, t503⟩, r⟩, ⟨⟨t500, t501, t500⟩, t494⟩, ⟨⟨t498, t499, t499⟩, t496⟩, ⟨⟨(0 : α), (0 : α), (1 : α)⟩, t44⟩, ⟨⟨(0 : α), (0 : α), (-(1 : α))⟩, f⟩)
             else
-              (⟨⟨t372, t373, t372⟩, t⟩, ⟨⟨t370, t371, t371⟩, r⟩, ⟨⟨t368, t369, t368⟩, t362⟩, ⟨⟨t366, t367, t367⟩, t364⟩, ⟨⟨(0 : α), (0 : α), (1 : α)⟩, t44⟩, ⟨⟨t83, t83, t84⟩, f⟩)
+              (⟨⟨t504, t505, t504⟩, t⟩, ⟨⟨t502, t503, t503⟩, r⟩, ⟨⟨t500, t501, t500⟩, t494⟩, ⟨⟨t498, t499, t499⟩, t496⟩, ⟨⟨(0 : α), (0 : α), (1 : α)⟩, t44⟩, ⟨⟨t83, t83, t84⟩, f⟩)
           else
             if t53 = (0 : α) then
-              (⟨⟨t372, t373, t372⟩, t⟩, ⟨⟨t370, t371, t371⟩, r⟩, ⟨⟨t368, t369, t368⟩, t362⟩, ⟨⟨t366, t367, t367⟩, t364⟩, ⟨⟨t326, t326, t327⟩, t44⟩, ⟨⟨(0 : α), (0 : α), (-(1 : α))⟩, f⟩)
+              (⟨⟨t504, t505, t504⟩, t⟩, ⟨⟨t502, t503, t503⟩, r⟩, ⟨⟨t500, t501, t500⟩, t494⟩, ⟨⟨t498, t499, t499⟩, t496⟩, ⟨⟨t458, t458, t459⟩, t44⟩, ⟨⟨(0 : α), (0 : α), (-(1 : α))⟩, f⟩)
             else
-              (⟨⟨t372, t373, t372⟩, t⟩, ⟨⟨t370, t371, t371⟩, r⟩, ⟨⟨t368, t369, t368⟩, t362⟩, ⟨⟨t366, t367, t367⟩, t364⟩, ⟨⟨t326, t326, t327⟩, t44⟩, ⟨⟨t83, t83, t84⟩, f⟩)
+              (⟨⟨t504, t505, t504⟩, t⟩, ⟨⟨t502, t503, t503⟩, r⟩, ⟨⟨t500, t501, t500⟩, t494⟩, ⟨⟨t498, t499, t499⟩, t496⟩, ⟨⟨t458, t458, t459⟩, t44⟩, ⟨⟨t83, t83, t84⟩, f⟩)
 
 end ImathVerif.Gen
